@@ -12,1225 +12,2689 @@ Definition show_fres (r : fres) : string :=
   end.
 Definition check (rs : list rune) : string := digest (show_fres (format_res rs)).
 Definition full (rs : list rune) : string := show_fres (format_res rs).
-Eval vm_compute in ("<<<M2131>>>" ++ check (runes_of_ascii "// " ++ [27880; 37322]%N ++ runes_of_ascii "
-	options{ zchar// a // b
-=
-""x y""
-; options1 
-=
-u16 ; 
-}packet 
-Pad
-
-    { Z9_
-
-    @calculatedFrom(  """"	) 
-`
-` 
-, @tag(42
-    )//
-	@tag(00
-
-) @lengthOf(
-    zchar
-
-    )
-match
-_x // packet A { u8 x, }
-	as
-	metadata
-{
-007 
-:
-
-As
-	""`tick`""  // packet A { u8 x, }
-  	: lengthOf, 
-255
-
-    :
-
-lengthOf""a	b""
-	// trailing space 
-	// " ++ [27880; 37322]%N ++ runes_of_ascii "
-
-:	Packet
-	255  : a1 ,  // c
-
-	[
-    00 
-, 0
-	,
-    10 , ""a\\""
-	,
-""it's""
-    ,
-
-    10	, 7]:Foo,
-}
-	,	match  Header as
-
-    o  {[ // packet A { u8 x, }
-    255 ]:
-	zchar 
-,
-    0123456789: 
-leftPad
-	[ 
-007
-,
-    3
-
-    ]:
-    leftPad
-    ,// c
-	0
-	:packetx
-    ,  } ,
-}
-	MetaData
-Pad{// packet A { u8 x, }
-} 
-packet 
-T
-	// packet A { u8 x, }
-
-	{
-// " ++ [27880; 37322]%N ++ runes_of_ascii "
-	charz	@lengthOf( asx
-	)
-    ``, } packet
-
-matchKey 
-{ @tag(3 
-) @calculatedFrom(
-
-""a	b"" 
-/// triple
-// c
-	)@calculatedFrom( """"
-	)
-pack
-    rootA
-, repeat//	t
-	  leftPad`` ,
-repeat uint32  Foo
-`u8 x,`
-    ,
-	@calculatedFrom(
-""" ++ [233]%N ++ runes_of_ascii "t" ++ [233]%N ++ runes_of_ascii """
-
-    ) repeat
-
+Eval vm_compute in ("<<<M207>>>" ++ check (runes_of_ascii "packet i8i8  { string
+    // `tick` ""quote"" 'q'
+    string_ `crlf
+line`
+    , pack , As
+// trailing space 
+// trailing space 
+@calculatedFrom( ""a	b""
+    ) ,  f32 body
+`tab	here` , repeatCount
+@calculatedFrom( """ ++ [28040; 24687]%N ++ runes_of_ascii """), char[  255 ] packetx , @calculatedFrom(
+    ""\" ++ [233]%N ++ runes_of_ascii """ ) @calculatedFrom(  ""abc""  ) @rightPad ( ) // @lengthOf(
+x`two words` , @calculatedFrom( ""a	b"")i32 stringy
+    , @rightPad // trailing space 
+()
+    Header
+    `tab	here`	,
+} packet i64_ {
+@rightPad ( )
     char[
-
-65535 
+10 ]i8i8	, u {
+char[]
+    roots
+    @calculatedFrom(
+""a\\"" // trailing space 
+) `it's` , } , len charz , float64 Z9_, int64 asx
+@lengthOf(
+    stringy ) `doc` ,uint8 repeatCount , uint16 i64_ , }
+MetaData// c
+Header {
+    // c
+    }
+    packet As // a // b
+{ match //	t
+uint8x as tag {[
+    ""CRC32"" ,
+""it's""  , 1
+    , ""{,}"" ,
+"""" ] // c
+: charz ,
+""""
+    //
+    : asx } ,//x
+}
+    packet lengthOf
+{ string_
+@lengthOf(f32a// c
+) `say ""hi""`  ,
+    @leftPad// `tick` ""quote"" 'q'
+(//	t
+) char[] matchKey ,repeat
+    float32
+Packet `crlf
+line`, @tag( 255
+/// triple
+//	t
+) float { repeat
+x
+    {
+int , int16
+Packet@calculatedFrom(  """")
+    , } ,trueish { match calculatedFrom	as// @lengthOf(
+matchKey {  [
+10 ]  :Foo, ""\n""  :MetaDataX // `tick` ""quote"" 'q'
+,}
+, u16 options1
+// 50% %s
+// 50% %s
+`line1
+line2`, } ,
+a1
+crc
+    `{ , }` ,repeat zchar `` ,
+}	,
+// 50% %s
+//	t
+@tag(// `tick` ""quote"" 'q'
+4294967296	)@tag( 007/// triple
+)
+    @calculatedFrom(
+    """" )
+i16 _x ``, @leftPad( '0' ) repeat	uint16 roots
+    ,repeat stringy{Header{
+// @lengthOf(
+// " ++ [27880; 37322]%N ++ runes_of_ascii "
+i16 As @calculatedFrom( ""\" ++ [233]%N ++ runes_of_ascii """
+    // @lengthOf(
+    ) `` , x {	repeat zchar[ 007 ]
+    asx , match Packet as string_{
+007: chars , [ /// triple
+""\" ++ [233]%N ++ runes_of_ascii """ , 255 ,	""" ++ [28040; 24687]%N ++ runes_of_ascii """
+    , 42
+,00 ,""\" ++ [233]%N ++ runes_of_ascii """ ,""abc""
+    , 007
+    ]	:// " ++ [27880; 37322]%N ++ runes_of_ascii "
+leftPad ,42 : metadata [
+    """ ++ [28040; 24687]%N ++ runes_of_ascii """ , ""\n""//x
 ]
-	u
-, @lengthOf(
-
-_x 
-) @lengthOf(
-u8x) 
+:
+T 3 :
+repeatCount ,	},
+char[	4294967296] MetaDataX
+,i64 f32a , } , } , repeat int32 msg_type,
+    // a // b
+    } , @lengthOf( charz
+) // " ++ [27880; 37322]%N ++ runes_of_ascii "
+trueish
+    // trailing space 
+    leftPad  `doc`
+    , @lengthOf( f32a) T u `` //x
+,	@leftPad (
+'\x00' )
+    u8 x_y_z@lengthOf(
+T ) `two words` ,}")).
+Eval vm_compute in ("<<<M3454>>>" ++ check (runes_of_ascii "// top
+options // c0
+{ LittleEndian // c2
+= // c3a
+  // c3b
+true // c4a
+  // c4b
+; // c5a
+  // c5b
+StringPrefixLenType = u32
+    // c8
+;
+    // c9
+ArrayPrefixLenType // c10a
+  // c10b
+= u32
+    // c12
+; FixedStringPadChar
+    // c14
+= // c15a
+  // c15b
+' '
+    // c16
+; // c17a
+  // c17b
+} // c18a
+  // c18b
+packet Party // c20a
+  // c20b
+{ // c21
+char[
+    // c22
+12 // c23
+] tag7 // c25a
+  // c25b
+, repeat
+    // c27
+InMsgkind99 // c28a
+  // c28b
+{ repeat
+    // c30
+i32 // c31
+Side2
+    // c32
+,
+    // c33
+repeat char[
+    // c35
+6 ] Qty
+    // c38
+, zchar[
+    // c40
+6 // c41a
+  // c41b
+] Ref // c43
+, zchar[ // c45a
+  // c45b
+8 ] // c47a
+  // c47b
+Px
+    // c48
+, // c49a
+  // c49b
+i64 // c50
+msgKind
+    // c51
+, // c52
+uint64
+    // c53
+lastPx // c54
+, // c55a
+  // c55b
+}
+    // c56
+, } // c58a
+  // c58b
+root packet
+    // c60
+Trade { // c62a
+  // c62b
 repeat
+    // c63
+InTag752 // c64a
+  // c64b
+{ // c65a
+  // c65b
+Party , // c67a
+  // c67b
+zchar[ 8 ]
+    // c70
+venue // c71
+, // c72a
+  // c72b
+repeat
+    // c73
+InFlags40 // c74a
+  // c74b
+{
+    // c75
+zchar[ 6 ] // c78a
+  // c78b
+sym // c79
+, } // c81
+, repeat
+    // c83
+InCount33 // c84
+{ zchar[ 8 ] // c88
+Qty
+    // c89
+, // c90
+int64 // c91a
+  // c91b
+venue ,
+    // c93
+u64 // c94a
+  // c94b
+Acct
+    // c95
+, // c96a
+  // c96b
+u16
+    // c97
+OrderId // c98a
+  // c98b
+, } // c100
+, // c101
+repeat // c102
+InSeqno96 { // c104a
+  // c104b
+repeat // c105a
+  // c105b
+Party
+    // c106
+, f64 msgKind
+    // c109
+, // c110a
+  // c110b
+}
+    // c111
+,
+    // c112
+f32 // c113
+Px // c114a
+  // c114b
+, } // c116
+, // c117
+u8
+    // c118
+venue
+    // c119
+,
+    // c120
+match
+    // c121
+venue // c122
+as
+    // c123
+Body { 0 // c126a
+  // c126b
+: Party , // c129a
+  // c129b
+} // c130a
+  // c130b
+,
+    // c131
+} // c132
+")).
+Eval vm_compute in ("<<<M529>>>" ++ check (runes_of_ascii "//
+MetaData u8x{ f64 //x
+Z9_
+``,char[
+    3
+    ] _x ,
+    u8x matchKey ,
+char[ 1 ]
+    int
+// `tick` ""quote"" 'q'
+// packet A { u8 x, }
+`tab	here`
+,
+i32 matchKey `` , msg_type Logon
+, } root packet charz {
+    zchar
+{
+repeat MetaDataX // `tick` ""quote"" 'q'
+{
+    char[ 10
+] Pad @calculatedFrom( ""packet"" )
+    ,zchar[ 0123456789  ]
+o
+@lengthOf( rootA
+    ) ,	zchar[ 0 ]
+u128 ,u32	uint8x @calculatedFrom( ""{,}"") , }	, match	zchar
+as trueish { ""packet""
+    :
+string_ , [00
+,
+// packet A { u8 x, }
+// " ++ [27880; 37322]%N ++ runes_of_ascii "
+""1""]	: repeatCount , ""\n"" :tag ,""1""  : matchKey
+,
+}
+,} ,match string_ as BodyLength  {""" ++ [233]%N ++ runes_of_ascii "t" ++ [233]%N ++ runes_of_ascii """: A
+    , [
+    0 , 1
+,
+    """ ++ [128512]%N ++ runes_of_ascii """  , ""`tick`"" ]
+    : uint8x , """ ++ [28040; 24687]%N ++ runes_of_ascii """ : string_ ,
+}
+    // " ++ [128512]%N ++ runes_of_ascii " emoji
+    , /// triple
+@lengthOf(
+i64_  ) i8 stringy@calculatedFrom( // 50% %s
+""1"" )	, zchar[ 0 ] charz ,
+    @lengthOf( matchKey
+)repeat As leftPad ,
+    @calculatedFrom( ""\" ++ [233]%N ++ runes_of_ascii """ )	match Header as i64_ {
+7:
+stringy, ""// no comment"": _x
+, // " ++ [27880; 37322]%N ++ runes_of_ascii "
+0	: options1 , [""// no comment""  , ""packet""
+    ,""x y""
+, ""a\""b"" ,"""" ,00 ,00 ,
+7] :As, [ 007 ] : zchar
+// a // b
+//
+, } //
+,// " ++ [27880; 37322]%N ++ runes_of_ascii "
+} packet metadata //
+{  match string_ // a // b
+as x {
+// 50% %s
+//
+""1"": tag
+    [ ""1""
+    ]//x
+: metadata , }, zchar[255]
+    // a // b
+    matchKey ,
+@calculatedFrom( ""a	b""// @lengthOf(
+) u64
+As// " ++ [27880; 37322]%N ++ runes_of_ascii "
+, @rightPad(  '0' ) // a // b
+@lengthOf( metadata )
+@rightPad ('\x00' ) char[]
+T
+    @calculatedFrom( //x
+""" ++ [128512]%N ++ runes_of_ascii """ )
+    `line1
+line2` , f32 options1@lengthOf(
+MetaDataX ) ,} // trailing space ")).
+Eval vm_compute in ("<<<M4433>>>" ++ check (runes_of_ascii "MetaData float {
+    u32 x,
+    T body,
+    string msg_type,
+}
 
-zchar[ 
-0123456789
+root packet options1 {
+    @lengthOf(chars)
+    @calculatedFrom(""\" ++ [233]%N ++ runes_of_ascii """)
+    @leftPad('\x00')
+    zchar[0] a1 @calculatedFrom(""a\\""),
+    @lengthOf(i8i8)
+    int64 crc,
+    @rightPad('0')
+    repeat char[4294967296] As,
+    @rightPad('0')
+    repeat pack {
+        match u8x as stringy {
+            ""a\""b"" : lengthOf,
+            """ ++ [233]%N ++ runes_of_ascii "t" ++ [233]%N ++ runes_of_ascii """ : a1,
+            """ ++ [128512]%N ++ runes_of_ascii """ : Pad,
+            ""\" ++ [233]%N ++ runes_of_ascii """ : metadata,
+            [255, 3] : crc,
+        },
+    },
+    // " ++ [128512]%N ++ runes_of_ascii " emoji
+    repeat falsey,
+    @calculatedFrom(""// no comment"")
+    repeat float64 Logon,
+    repeat zchar[4294967296] Foo,
+}
+
+MetaData stringy {
+    char[65535] stringy `two words`,
+    i64_ calculatedFrom `say ""hi""`,
+    stringy float,// 50% %s
+    i8 o,
+    i8 T,
+}
+
+MetaData roots {
+    uint8x leftPad `{ , }`,// " ++ [27880; 37322]%N ++ runes_of_ascii "
+    string options1,
+    char[] tag,
+}
+
+packet uint8x {
+    @lengthOf(crc)
+    // " ++ [128512]%N ++ runes_of_ascii " emoji
+    /// triple
+    @tag(255)
+    //x
+    f32 metadata `// not a comment`,//	t
+    @rightPad(' ')
+    repeat f32a,
+    stringy {
+        f32a calculatedFrom `crlf
+                line`,
+        crc @lengthOf(i64_) `crlf
+                line`,
+        charz `doc`,
+        repeat int16 packetx,
+    },
+    matchKey o,
+    @calculatedFrom(""it's"")
+    MetaDataX @lengthOf(tag) `100% of %d`,
+}")).
+Eval vm_compute in ("<<<M1246>>>" ++ check (runes_of_ascii "
+root packet x_y_z {
+    @leftPad ( )// @lengthOf(
+trueish
+a1 , repeat int64
+A , //	t
+@lengthOf(trueish)trueish @lengthOf(  falsey ) ``,i8i8 { match
+    x as// packet A { u8 x, }
+x{	""`tick`"" : Logon ,} ,
+// `tick` ""quote"" 'q'
+// packet A { u8 x, }
+uint16 o// " ++ [128512]%N ++ runes_of_ascii " emoji
+,
+i8i8 {_x {
+string
+    zchar ,uint8
+    matchKey
+`a\` , }	,
+    len
+    Pad , match u8x as
+    A { 3 :lengthOf
+, [ //
+65535 ,
+""""
+    ,
+// " ++ [27880; 37322]%N ++ runes_of_ascii "
+/// triple
+255 , ""x y""
+    ] : x  ,
+    ""packet"" : //
+x_y_z
+    42 : a1
+    [
+    ""a	b""	]: pack, } , f32 uint8x @calculatedFrom( ""`tick`"")
+    `" ++ [233]%N ++ runes_of_ascii "` , }	,// `tick` ""quote"" 'q'
+string i8i8@lengthOf(chars
+    )// " ++ [128512]%N ++ runes_of_ascii " emoji
+,} ,
+@leftPad ( ) repeat uint64 lengthOf ,	i8i8 { match crc as a1{""packet"" :int, } ,
+    trueish
+    {zchar[ // a // b
+255 ]
+float , len  {repeat Packet Pad `" ++ [233]%N ++ runes_of_ascii "` ,
+string_ msg_type, } , string Pad``
+,repeat char[ 0 ]float `it's`  ,
+} ,repeat string Header	`{ , }` ,repeat zchar[
+0123456789  ]o ,} , i64_ @calculatedFrom(// @lengthOf(
+""it's"" )`u8 x,`
+,@calculatedFrom(""// no comment""	)	rootA{ char[ 4294967296] repeatCount, } , } options { Pad =
+"""" ; body=// " ++ [128512]%N ++ runes_of_ascii " emoji
+uint8 ; packetx
+    = '0' // " ++ [128512]%N ++ runes_of_ascii " emoji
+; crc
+// @lengthOf(
+// @lengthOf(
+= ""x y"" ; }
+")).
+Eval vm_compute in ("<<<M4448>>>" ++ check (runes_of_ascii "root packet
+Logon { zchar[65535 ]uint8x	,@leftPad (
+
+) repeat
+f32
+
+    Packet ,
+
+    @leftPad 
+( ' ' // c
+)  match
+
+    i8i8 as
+body
+
+    {65535
+: 
+MetaDataX /// triple
+  ,//x
+	007: 	 // c
+Packet
+	}, @calculatedFrom( 
+""packet""
+)
+
+    uint8x ,	Foo
+    @lengthOf(// `tick` ""quote"" 'q'
+    asx
+
+    ) , i64 int 
+,
+@leftPad(' ' 
+)
+repeat rootA
+{ int32
+
+zchar , match	stringy	as
+MetaDataX{
+	[ """ ++ [28040; 24687]%N ++ runes_of_ascii """
+,
+
+    10 
+,
+42,
+
+""a\""b""
+, 
+
+    // trailing space 
+  // trailing space 
+
+  42 ,
+
+    7] : msg_type
+
+,
+
+    [ 42]	: stringy  ,  ""a\\""
+	:	Header
+
+255
+: calculatedFrom ,	[ 007
+
+    ]  :	MetaDataX
+	,""a\""b"" 
+: stringy
+,}
+
+    ,
+char[
+
+    007  ] 
+int
+
+    @lengthOf( 
+o  )
+
+`100% of %d` ,
+    } ,
+
+    char[	00
+    ]
+    leftPad
+@lengthOf(zchar)
+,
+	char[]
+zchar @calculatedFrom(
+""1"" 
+)
+
+,
+	i64_
+    {Packet @lengthOf( Header)
+`two words`
+    ,  // a // b
+  	match	int as As
+
+    { 
+""\" ++ [233]%N ++ runes_of_ascii """ :
+As
+,
+    }  ,
+
+    metadata `// not a comment`,repeat f64
+    float, 
+    //	t
+  } 
+, 
+}
+    options{ //
+	u= ""packet"" BodyLength= ""packet""
+
+;
+}
+
+    root
+packet
+u8x
+    {
+} // packet A { u8 x, }")).
+Eval vm_compute in ("<<<M3486>>>" ++ check (runes_of_ascii "options { // c1a
+  // c1b
+LittleEndian = true
+    // c4
+;
+    // c5
+StringPrefixLenType
+    // c6
+= // c7a
+  // c7b
+u16 // c8
+;
+    // c9
+ArrayPrefixLenType // c10a
+  // c10b
+= // c11a
+  // c11b
+u64
+    // c12
+; // c13a
+  // c13b
+FixedStringPadFromLeft = // c15a
+  // c15b
+true
+    // c16
+; // c17a
+  // c17b
+FixedStringPadChar // c18a
+  // c18b
+= // c19a
+  // c19b
+' ' // c20a
+  // c20b
+; // c21a
+  // c21b
+} // c22a
+  // c22b
+packet
+    // c23
+Reject // c24a
+  // c24b
+{ // c25
+zchar[ // c26a
+  // c26b
+3 ] // c28
+OrderId , // c30
+int16
+    // c31
+Flags , // c33a
+  // c33b
+@leftPad // c34
+(
+    // c35
+' ' ) char[ // c38
+11 // c39
+] x
+    // c41
+, // c42
+u16 // c43
+tag7 // c44a
+  // c44b
+, // c45
+}
+    // c46
+packet
+    // c47
+Quote // c48a
+  // c48b
+{ // c49a
+  // c49b
+Reject , char[] Qty
+    // c53
+,
+    // c54
+repeat
+    // c55
+f32 f1 // c57
+,
+    // c58
+zchar[ // c59
+5 // c60
 ]
-x ,
-	match
+    // c61
+Flags , // c63a
+  // c63b
+} // c64a
+  // c64b
+root packet
+    // c66
+Leg { // c68
+i32 // c69a
+  // c69b
+Px // c70
+,
+    // c71
+} // c72a
+  // c72b
+")).
+Eval vm_compute in ("<<<M4327>>>" ++ check (runes_of_ascii "options {
+    //x
+    //	t
+}
 
-    i64_  // " ++ [27880; 37322]%N ++ runes_of_ascii "
+MetaData crc {
+    //
+    uint32 packetx `line1
+        line2`,
+}
+
+options {
+    // packet A { u8 x, }
+    trueish = true
+    falsey = false
+    f32a = zchar[255]
+    trueish = 255
+    Z9_ = ""\n"";
+}
+
+packet repeatCount {
+    asx {
+        match _x as msg_type {
+            0123456789 : trueish,
+            [42] : matchKey,
+            """ ++ [28040; 24687]%N ++ runes_of_ascii """ : roots,
+            [1] : As,
+        },
+    },
+    @calculatedFrom(""// no comment"")
+    char metadata,
+    repeat rootA {
+        int64 stringy @calculatedFrom(""1""),
+        u32 T,
+    },
+    float32 i64_,
+    repeat zchar[007] T `say ""hi""`,
+    repeat tag {
+        int8 crc `crlf
+                line`,
+        repeat o {
+            repeat f32a,
+        },
+        repeat i16 Z9_ `" ++ [233]%N ++ runes_of_ascii "`,
+        zchar[3] body @lengthOf(Packet),
+    },
+    @lengthOf(o)
+    match uint8x as As {
+        255 : T,
+    },
+    f32a @lengthOf(leftPad),
+    BodyLength _x `it's`,//	t
+    repeat asx {
+        char[10] i64_ @lengthOf(u),
+    },
+}//x")).
+Eval vm_compute in ("<<<M407>>>" ++ check (runes_of_ascii "packet roots { // packet A { u8 x, }
+@leftPad ( ) calculatedFrom `line1
+line2` //x
+, @calculatedFrom(""// no comment"" //	t
+) match
+i8i8 as x
+    // trailing space 
+    {
+    00
+:
+    chars  , ""// no comment"" :A /// triple
+,
+    [
+    00, ""it's"" ]: roots	, 0:	A ""`tick`""// c
+: charz
+    ,""\" ++ [233]%N ++ runes_of_ascii """
+:  repeatCount , },	@lengthOf( a1 ) u16 i8i8
+, @calculatedFrom(""a	b"" )
+repeat options1 { uint32
+    BodyLength
+@calculatedFrom( ""a\\"") `
+`
+    // @lengthOf(
+    ,
+    match options1
+as // " ++ [27880; 37322]%N ++ runes_of_ascii "
+charz {
+    /// triple
+    007 :
+x_y_z ,// " ++ [128512]%N ++ runes_of_ascii " emoji
+7 : T , // packet A { u8 x, }
+[ ""CRC32"" , ""{,}"" ]
+:
+    u8x [ 00 , ""CRC32"" , ""// no comment""
+    , 4294967296 , ""`tick`"" ,42
+,	0123456789 ] :falsey , 42 : pack
+    , ""`tick`"":
+    As
+,
+} ,
+} ,
+@lengthOf(	rootA )  repeatCount { f32 i64_ `tab	here` ,} , @leftPad (// " ++ [27880; 37322]%N ++ runes_of_ascii "
+'0'
+    ) @tag( 255 )
+repeat packetx , falsey `" ++ [233]%N ++ runes_of_ascii "` // `tick` ""quote"" 'q'
+, //	t
+options1 leftPad
+    ,
+repeat
+string_ roots `" ++ [233]%N ++ runes_of_ascii "` ,
+    }")).
+Eval vm_compute in ("<<<M416>>>" ++ check (runes_of_ascii "
+MetaData lengthOf { calculatedFrom	BodyLength `" ++ [28040; 24687; 31867; 22411]%N ++ runes_of_ascii "` ,Packet x,
+char[00 ] metadata
+,
+options1
+BodyLength ,
+f32 x  ,
+// `tick` ""quote"" 'q'
+//x
+} MetaData pack{int64
+u
+`a\`
+, int8 asx `tab	here` ,
+    char[]
+a1`u8 x,` ,repeatCount len `" ++ [233]%N ++ runes_of_ascii "` ,
+    } packet charz{
+@leftPad ( '\x00' ) float32 options1`two words` , } packet pack{ @tag( 10 )
+repeat u
+{ repeat i16 trueish`say ""hi""` ,repeat len calculatedFrom ,o Foo ,
+}
+,
+i8 msg_type`crlf
+line` , @calculatedFrom(
+    ""\n""
+) // c
+zchar[
+    10
+]
+chars
+    @lengthOf(	trueish// 50% %s
+) //	t
+,
+    uint8 o, @calculatedFrom( ""a	b""
+) f64/// triple
+string_ , a1 {string x
+    `" ++ [28040; 24687; 31867; 22411]%N ++ runes_of_ascii "`
+, // " ++ [128512]%N ++ runes_of_ascii " emoji
+repeat i64_
+,
+    f64
+i8i8 `it's`// 50% %s
+,} ,  @calculatedFrom(""abc""	)
+    string_ @calculatedFrom( ""`tick`"" )
+`{ , }`
+    ,match
+uint8x as As
+    {[
+0,
+""a\\"" ]
+:
+    metadata [ ""x y"" , ""a	b""
+    ,""{,}"" //
+, """ ++ [28040; 24687]%N ++ runes_of_ascii """  , ""{,}"" ,
+""{,}"" ]  : asx ,},}")).
+Eval vm_compute in ("<<<M3664>>>" ++ check (runes_of_ascii "packet BodyLength {
+    Pad {
+        Foo i64_ `say ""hi""`,
+        Header {
+            // a // b
+            zchar[10] o,
+        },
+        repeat zchar[007] crc,
+        u16 i64_ @calculatedFrom(""1"") `a\`,
+    },
+}
+
+packet uint8x {
+    @calculatedFrom(""a	b"")
+    char[0123456789] x,
+    i16 repeatCount @calculatedFrom(""x y""),
+    repeat u32 roots,
+    @lengthOf(string_)
+    @lengthOf(len)
+    @rightPad('\x00')
+    repeat x_y_z {
+        repeat BodyLength,
+        repeatCount @lengthOf(charz) `line1
+        line2`,
+    },
+    string u128 @calculatedFrom(""// no comment"") `doc`,
+    char[] rootA `// not a comment`,
+}
+
+packet T {
+    rootA @lengthOf(tag) `{ , }`,
+    repeatCount x_y_z `it's`,
+    @tag(10)
+    o options1,// " ++ [27880; 37322]%N ++ runes_of_ascii "
+    match zchar as Pad {
+        """ ++ [233]%N ++ runes_of_ascii "t" ++ [233]%N ++ runes_of_ascii """ : trueish,
+        1 : x_y_z,
+        ""packet"" : float,
+        255 : tag,
+    },
+}")).
+Eval vm_compute in ("<<<M253>>>" ++ check (runes_of_ascii "packet stringy{ @leftPad ( ) /// triple
+@leftPad// @lengthOf(
+('0' ) string  string_
+, }
+options	{ //x
+}  root packet chars//x
+{ @tag(	1
+    ) @tag( 00 ) // " ++ [128512]%N ++ runes_of_ascii " emoji
+rootA ,@calculatedFrom(
+""abc"" ) x_y_z , repeat chars{ uint8x @calculatedFrom(""CRC32"" ) `// not a comment`
+, match a1
+as
+lengthOf //x
+{ ""// no comment"" //	t
+: // a // b
+packetx ,} , uint64
+    int `100% of %d`
+    ,zchar[42 ]  Packet
+`two words`
+    , }
+    //x
+    ,@leftPad( '0'
+)
+// " ++ [128512]%N ++ runes_of_ascii " emoji
+// " ++ [128512]%N ++ runes_of_ascii " emoji
+@leftPad ()  @leftPad (
+)  leftPad {  repeat i8 roots
+, i16 float
+    @lengthOf( string_
+)// " ++ [128512]%N ++ runes_of_ascii " emoji
+, repeat Logon msg_type ,repeat x { repeat
+zchar[  3
+] _x  `two words` , string i8i8 `u8 x,`	, i32 float @calculatedFrom( ""\" ++ [233]%N ++ runes_of_ascii """ ) // c
+, } // " ++ [27880; 37322]%N ++ runes_of_ascii "
+, }
+, // c
+repeat
+uint64 i64_
+, string options1	, char[ 1 ]
+i8i8, } // @lengthOf(")).
+Eval vm_compute in ("<<<M3478>>>" ++ check (runes_of_ascii "options {
+    ArrayPrefixLenType = u64;
+    FixedStringPadFromLeft = false;
+}
+packet Trade {
+}
+packet Reject {
+    InPx94 {
+        repeat Trade,
+        string count,
+        InFlags14 {
+            u8 pad0,
+        },
+        repeat InSide239 {
+            char[8] lastPx,
+            repeat i64 clOrdID,
+            i64 Acct,
+        },
+    },
+    repeat string clOrdID,
+    zchar[5] sym,
+}
+packet Quote {
+    repeat Reject,
+}
+packet Logon {
+    repeat Reject,
+    char[] Acct,
+    @leftPad('0') char[4] tag7,
+}
+root packet Fill {
+    @rightPad('0') char[1] count,
+    u8 f1,
+    u32 Qty @lengthOf(Body),
+    match f1 as Body {
+        [195, 3] : Reject,
+        110 : Quote,
+        141 : Logon,
+        21 : Trade,
+    },
+    u32 Flags @calculatedFrom(""CRC32""),
+}
+")).
+Eval vm_compute in ("<<<M453>>>" ++ check (runes_of_ascii "packet  f32a
+    { @tag(1
+    // " ++ [27880; 37322]%N ++ runes_of_ascii "
+    )
+i64 roots @calculatedFrom(""CRC32""
+) ,
+charz
+//x
+// @lengthOf(
+`crlf
+line` , // `tick` ""quote"" 'q'
+@calculatedFrom(
+    ""\n""
+    // `tick` ""quote"" 'q'
+    )
+    metadata , @lengthOf(o )
+repeat zchar[ 1  ] BodyLength,//	t
+repeat uint8x u8x  ,
+    } root packet body {
+repeat Z9_ { //	t
+o //	t
+Foo , /// triple
+match trueish as
+//x
+// a // b
+T { [ 65535]
+    :len,10 : pack	, } ,repeat  float32
+    // c
+    uint8x ,},@lengthOf( u8x) repeat calculatedFrom
+{ u64	u8x
+//x
+// c
+, }
+    ,
+}packet // trailing space 
+options1{
+    packetx @calculatedFrom(""`tick`"" ), } options
+{
+a1= ""abc""	i8i8= 1 stringy = true
+    options1 =
+    """ ++ [128512]%N ++ runes_of_ascii """; } packet Pad {@calculatedFrom(
+    ""\" ++ [233]%N ++ runes_of_ascii """ ) crc
+    , }
+// trailing space 
+")).
+Eval vm_compute in ("<<<M219>>>" ++ check (runes_of_ascii "//	t
+packet	u8x {repeat uint16 body , }MetaData
+    trueish // packet A { u8 x, }
+{} options
+    {
+    // 50% %s
+    Header
+=
+false ;
+} packet Logon { match i8i8 as options1 { 0
+: MetaDataX,""" ++ [128512]%N ++ runes_of_ascii """ : MetaDataX
+    , [ """ ++ [233]%N ++ runes_of_ascii "t" ++ [233]%N ++ runes_of_ascii """ ,255 ]
+    :T } , repeat a1
+a1 `crlf
+line` ,	@calculatedFrom(
+    ""\" ++ [233]%N ++ runes_of_ascii """
+) o
+@calculatedFrom(
+""a	b"" ) ,
+    // a // b
+    @rightPad //x
+(
+) zchar[1]  stringy
+@lengthOf(
+Z9_), @tag( 1
+)char[
+65535 ]packetx
+, repeat chars {x_y_z	{Logon chars`u8 x,`, } ,
+    } ,
+    u16	_x
+    @lengthOf(Header
+) , @tag(
+65535
+    ) repeat
+uint8x	{int/// triple
+`crlf
+line`
+    , } , @leftPad ( // 50% %s
+'0' )
+@calculatedFrom(
+""a\""b"" ) repeat // " ++ [27880; 37322]%N ++ runes_of_ascii "
+u64 tag , char[]
+MetaDataX
+, } options {
+}
+// " ++ [27880; 37322]%N ++ runes_of_ascii "
+")).
+Eval vm_compute in ("<<<M3455>>>" ++ check (runes_of_ascii "options	{
+
+    LittleEndian
+=
+true ;StringPrefixLenType
+=u32
+; ArrayPrefixLenType =u32;
+
+FixedStringPadChar
+    =
+
+    ' ' 
+; }packet
+Party 
+{
+char[12
+    ]	tag7,  repeat InMsgkind99
+
+{
+	repeat
+
+i32
+
+Side2
+,  repeat
+char[ 
+6
+	]
+
+Qty 
+, zchar[
+6 ]	Ref 
+, zchar[ 8 ]Px,
+i64 
+msgKind  ,uint64 
+lastPx
+,
+	}
+	,	}root	packet	Trade  {repeat	InTag752{ Party ,zchar[
+8 ] venue
+
+,  repeat	InFlags40
+{
+zchar[ 6 ]sym
+,  }
+
+, repeat InCount33	{ 
+zchar[
+8
+    ]
+Qty
+
+    , 
+int64	venue ,
+    u64
+
+Acct
+, 
+u16
+OrderId
+    , 
+} ,
+repeat
+InSeqno96
+
+{
+	repeat	Party
+,	f64
+msgKind
+,	}
+	, f32 Px
+
+,
+} , u8
+    venue  , match
+venue as
+
+    Body
+	{ 
+0:Party
+    ,}
+
+    ,
+}
+")).
+Eval vm_compute in ("<<<M300>>>" ++ check (runes_of_ascii "root
+packet  int { @calculatedFrom(
+    ""abc"") f32
+    int @calculatedFrom(
+""a\\"" ) ,@lengthOf(i8i8 ) @rightPad (	' '
+) @lengthOf( MetaDataX) zchar[	0
+// `tick` ""quote"" 'q'
+// `tick` ""quote"" 'q'
+]A
+,@rightPad( '0') u64 A @calculatedFrom(
+""abc""
+    ) , /// triple
+} MetaData Logon{ int32 Header , i8 // packet A { u8 x, }
+i64_ ,	x_y_z a1 , trueish pack `crlf
+line` , char[ 1] lengthOf , _x BodyLength, } packet asx
+    { repeat	body
+, @tag( 255 )repeat // packet A { u8 x, }
+char[ 3	]
+charz `it's`
+    //	t
+    ,
+// c
+// " ++ [128512]%N ++ runes_of_ascii " emoji
+o @lengthOf(leftPad )  ,  zchar[4294967296 ] body,@leftPad (
+'\x00'
+    )char u128 ,}
+packet chars{ } packet float //x
+{ }
+")).
+Eval vm_compute in ("<<<M1263>>>" ++ check (runes_of_ascii "MetaData Pad  { }
+packet f32a{ @lengthOf(string_
+    )msg_type @lengthOf(
+    leftPad) , // 50% %s
+matchKey // @lengthOf(
+`doc`, @rightPad ( '0' ) string_,  falsey
+    len `" ++ [233]%N ++ runes_of_ascii "` , zchar[ 4294967296
+    ]
+packetx
+/// triple
+// @lengthOf(
+@calculatedFrom(""a\""b"") // c
+, } root packet
+Logon { char[] roots , } packet crc {@lengthOf(stringy
+)
+string
+matchKey
+    , @calculatedFrom( ""a\""b"" // c
+) uint8	stringy @lengthOf( float ), u , @calculatedFrom( ""\n""
+)  A @lengthOf( packetx)	, @lengthOf(
+f32a ) string chars `
+`, crc  @calculatedFrom(""it's""	) , @tag( 007 )f64	Header , chars
+f32a ``
+,
+// " ++ [27880; 37322]%N ++ runes_of_ascii "
+// `tick` ""quote"" 'q'
+}  options { } 	 ")).
+Eval vm_compute in ("<<<M3467>>>" ++ check (runes_of_ascii "options { LittleEndian = true // c4a
+  // c4b
+; // c5a
+  // c5b
+StringPrefixLenType // c6a
+  // c6b
+= u16 ;
+    // c9
+ArrayPrefixLenType
+    // c10
+= // c11a
+  // c11b
+u8 ; // c13
+}
+    // c14
+packet
+    // c15
+Reject {
+    // c17
+repeat
+    // c18
+char[ 1
+    // c20
+]
+    // c21
+price , repeat // c24a
+  // c24b
+InFlags60 // c25
+{ u8
+    // c27
+pad0 ,
+    // c29
+} , // c31a
+  // c31b
+u8 // c32
+Qty // c33
+, // c34a
+  // c34b
+} root // c36
+packet // c37a
+  // c37b
+Heartbeat { repeat
+    // c40
+Reject // c41a
+  // c41b
+,
+    // c42
+repeat // c43
+string
+    // c44
+sym // c45
+, // c46a
+  // c46b
+}
+    // c47
+")).
+Eval vm_compute in ("<<<M3439>>>" ++ check (runes_of_ascii "// top
+packet // c0a
+  // c0b
+Logon // c1
+{ string user
+    // c4
+, // c5
+} // c6a
+  // c6b
+root // c7
+packet // c8
+Frame { // c10
+u8
+    // c11
+K ,
+    // c13
+match // c14a
+  // c14b
+K
+    // c15
+as
+    // c16
+Body // c17a
+  // c17b
+{ 1
+    // c19
+: Logon ,
+    // c22
+2 // c23a
+  // c23b
+: // c24
+Logout // c25
+, // c26
+} // c27a
+  // c27b
+,
+    // c28
+Tail // c29
+, } packet // c32a
+  // c32b
+Logout
+    // c33
+{ // c34
+u16 // c35a
+  // c35b
+reason , // c37
+}
+    // c38
+packet
+    // c39
+Tail // c40a
+  // c40b
+{ u32 // c42a
+  // c42b
+crc
+    // c43
+, // c44a
+  // c44b
+}
+    // c45
+")).
+Eval vm_compute in ("<<<M3406>>>" ++ check (runes_of_ascii "// top
+packet // c0a
+  // c0b
+A
+    // c1
+{ // c2
+u8
+    // c3
+a
+    // c4
+, // c5a
+  // c5b
+}
+    // c6
+packet // c7
+B // c8
+{ // c9
+u16 // c10
+b , } // c13
+root // c14
+packet P // c16a
+  // c16b
+{
+    // c17
+u8 K1 // c19
+,
+    // c20
+u8 // c21a
+  // c21b
+K2 // c22a
+  // c22b
+, // c23a
+  // c23b
+match K1 as // c26
+M1
+    // c27
+{ // c28
+1 // c29
+: A // c31a
+  // c31b
+, // c32
+} // c33a
+  // c33b
+, match // c35
+K2 as // c37
+M2 // c38
+{ // c39a
+  // c39b
+1 // c40a
+  // c40b
+:
+    // c41
+B // c42a
+  // c42b
+,
+    // c43
+}
+    // c44
+, // c45a
+  // c45b
+} // c46
+")).
+Eval vm_compute in ("<<<M4193>>>" ++ check (runes_of_ascii "
+packet stringy  {
+    repeat u
+        // c
+    //x
+	`tab	here`
+    ,
+crc  ,repeat
+    a1 {x	trueish
+	`it's`
+    ,
+
+zchar[
+
+1
+	]
+
+roots
+@lengthOf(
+    lengthOf
+	)
+,	int16 
+f32a//x
+    	,
+
+    uint32
+	    // " ++ [128512]%N ++ runes_of_ascii " emoji
+a1
+
+@lengthOf( u	)
+
+    ,
+    } ,match
+    // " ++ [128512]%N ++ runes_of_ascii " emoji
+    Logon
     as
 
-falsey
-	{	// trailing space 
-255
-:	f32a ,
+//	t
+      /// triple
+  u128{ [
 
-    ""{,}""	: x,	""\" ++ [233]%N ++ runes_of_ascii """ 
-: matchKey, 
-[ """"	, 
-    // trailing space 
-  ""{,}""
-	,
-	10
-	, """ ++ [128512]%N ++ runes_of_ascii """  
-      // a // b
-		// packet A { u8 x, }
-,""a	b"",	0  ,
-""1""
+""x y""
+]: uint8x
+	""// no comment"":  pack
+
+    ,""1""  :
+
+//	t
+    // `tick` ""quote"" 'q'
+      crc,
+	},
+
+    u16
+
+    uint8x
+
+@lengthOf(int
+
+// trailing space 
+	  )
+
+,  @tag(
+007	)  //x
+	repeat f32a
 
 ,
-65535 ] 
-:len,""\" ++ [233]%N ++ runes_of_ascii """
-
-    :
-
-T 
-,
-	[
-
-""CRC32"" , 
-	// " ++ [128512]%N ++ runes_of_ascii " emoji
-  1 , ""// no comment"" ,	007
-	,	1, ""`tick`"" , """ ++ [128512]%N ++ runes_of_ascii """
-    ] 	 // packet A { u8 x, }
-
-  : a1 }
-,
-
-    match x as As
-	{ ""a	b""
-	: o,  007 :
-
-MetaDataX
-,  [
-	""a	b"" ]
-:
-    falsey, ""// no comment""
-    : 
-Z9_
-
-""packet"":
-
-_x
-    // " ++ [128512]%N ++ runes_of_ascii " emoji
-  ,}
-
-, repeat
-rootA	{
-uint8
-    MetaDataX	@calculatedFrom( ""abc""
-
-), match  // `tick` ""quote"" 'q'
-int as// a // b
-  	asx{ [
-	10
-
-,  10 , ""`tick`""
-
-    ,  00
-    ,	4294967296 ]
-	: 
-o
-,
-""CRC32"" : string_ 
-,
-[ 0	]  :
-    roots 65535	: 
+	}")).
+Eval vm_compute in ("<<<M582>>>" ++ check (runes_of_ascii "packet body {
+    @lengthOf( Pad
+    )
+@tag( 007)
+    @tag( 00
+    ) crc// 50% %s
+@lengthOf( falsey
+// @lengthOf(
+//	t
+) ,  @leftPad ( ' ' )  repeat	string repeatCount `u8 x,` ,@rightPad ( )@leftPad (' ')
+uint8x
+    u128 ,@calculatedFrom(
 // " ++ [27880; 37322]%N ++ runes_of_ascii "
-  	// trailing space 
-	_x	//
-    ,	""it's"" :
-Pad
-,  4294967296 : 
-Pad,  }
-
-    ,u16
-chars  `line1
-line2`, //x
-
-  }  , 
-}")).
-Eval vm_compute in ("<<<M1913>>>" ++ check (runes_of_ascii "  options {
-    StringPrefixLenType =  u16 ; 
-ArrayPrefixLenType
-
-= 
-u16
-	;}
-	packet SampleBinary
+// 50% %s
+""\n""
+) packetx
+lengthOf , } packet  body
+{ @calculatedFrom( ""\" ++ [233]%N ++ runes_of_ascii """ )	metadata // `tick` ""quote"" 'q'
+asx
+    `100% of %d` , //
+match
+    chars as uint8x
+{""1""
+: //	t
+options1  ,	7: rootA ,""// no comment"" :float
+    }
+, char[  4294967296 // " ++ [128512]%N ++ runes_of_ascii " emoji
+] o
+,}")).
+Eval vm_compute in ("<<<M855>>>" ++ check (runes_of_ascii "packet
+    //
+    calculatedFrom {/// triple
+pack matchKey `` , int8 MetaDataX
+`a\` ,
+    @lengthOf(crc  )
+    int16 T , zchar[1]
+    Logon @lengthOf(T )`line1
+line2` ,
+@rightPad ( ) Packet`u8 x,` ,}
+packet pack /// triple
+{ } packet
+Z9_ {
+Pad @lengthOf( _x )  `say ""hi""`
+, @lengthOf(
+matchKey
+)@calculatedFrom(  """ ++ [128512]%N ++ runes_of_ascii """ ) f32	matchKey @calculatedFrom(  ""{,}""  ) `// not a comment`	,  } options
     {
-    uint16 MsgType `" ++ [28040; 24687; 31867; 22411]%N ++ runes_of_ascii "`
-    ,
-    u16	BodyLenght @lengthOf( 
-Body )`" ++ [28040; 24687; 20307; 38271; 24230]%N ++ runes_of_ascii "`
-    ,
-match  MsgType
-
-as
-    Body  {1
-
-:Logon
-    ,
-    2
-:	Logout
-	, 3 :
-Heartbeat , 4
-: RiskControlRequest , 5:
-    RiskControlResponse
-    , } 
-,@calculatedFrom(
-    ""CRC32""
-)
-    u32	Ckecksum
-`" ++ [26657; 39564; 21644]%N ++ runes_of_ascii "`,}	packet
-
-Logon
-
-{
-
-    @leftPad
-
-('0'
-)	char[
-10]
-UserName`" ++ [29992; 25143; 21517]%N ++ runes_of_ascii "`
-,	string Password `" ++ [23494; 30721]%N ++ runes_of_ascii "` 
+    u
+=
+char[  65535 ]; rootA
+=
+3 leftPad = ' '
+;repeatCount =
+    // " ++ [128512]%N ++ runes_of_ascii " emoji
+    '\x00' ;
+}")).
+Eval vm_compute in ("<<<M904>>>" ++ check (runes_of_ascii "root packet options1 { stringy @calculatedFrom(
+    // " ++ [27880; 37322]%N ++ runes_of_ascii "
+    ""packet"" )
+,// @lengthOf(
+match a1 as Pad{ ""x y"" : f32a[
+""" ++ [233]%N ++ runes_of_ascii "t" ++ [233]%N ++ runes_of_ascii """ ,1
+// " ++ [27880; 37322]%N ++ runes_of_ascii "
+//
 ,
-
-uint64
-    ClientId
-	`" ++ [23458; 25143; 31471]%N ++ runes_of_ascii "ID`,  u16	HeartbeatInterval
-`" ++ [24515; 36339; 38388; 38548]%N ++ runes_of_ascii "` ,
+    ""it's""
+, ""a\""b"", 10 ,42 , """ ++ [233]%N ++ runes_of_ascii "t" ++ [233]%N ++ runes_of_ascii """
+    , """ ++ [233]%N ++ runes_of_ascii "t" ++ [233]%N ++ runes_of_ascii """ ]:
+Packet //
 }
-packet
-
-    Logout
-	{
-	@rightPad (
-
-    '0')
-
-    char[10	]	UserName	`" ++ [29992; 25143; 21517]%N ++ runes_of_ascii "` ,uint64 ClientId  `" ++ [23458; 25143; 31471]%N ++ runes_of_ascii "ID`,
-
-    }packet 
-Heartbeat
+// `tick` ""quote"" 'q'
+// " ++ [128512]%N ++ runes_of_ascii " emoji
+,
+repeat float32 float `" ++ [28040; 24687; 31867; 22411]%N ++ runes_of_ascii "`
+    , u8
+    u8x
+`crlf
+line` ,@calculatedFrom(
+    """ ++ [28040; 24687]%N ++ runes_of_ascii """
+)  @calculatedFrom( ""a\""b"")
+char[ 42// " ++ [128512]%N ++ runes_of_ascii " emoji
+]
+    int
+    , float32 _x // c
+@calculatedFrom(
+""// no comment"" // c
+)
+    , charz pack  ,}
+")).
+Eval vm_compute in ("<<<M4269>>>" ++ check (runes_of_ascii "packet  uint8x
 
 {
-	}
-packet RiskControlRequest {
-string
-UniqueOrderId
 
-`" ++ [21807; 19968; 35746; 21333; 21495]%N ++ runes_of_ascii "`	,char[
-    16] ClOrdID 
-`" ++ [23458; 25143; 35746; 21333; 21495]%N ++ runes_of_ascii "`
+@tag(
+    0123456789  ) 
+match
+	u8x
+as //x
+tag
+    {
+[
+""a\\""
+	,	""{,}""	, 	 // " ++ [128512]%N ++ runes_of_ascii " emoji
+0123456789  // " ++ [128512]%N ++ runes_of_ascii " emoji
+	,""it's"" 
+] 
+:
 
-, char[
-	3	] MarketID  `" ++ [24066; 22330]%N ++ runes_of_ascii "id`,
+    tag	}	,
 
     char[ 
-12]	SecurityID
+3
+] 
+packetx ,
+repeat
+	u8 x_y_z,
 
-    `" ++ [35777; 21048; 20195; 30721]%N ++ runes_of_ascii "`
-	,
-
-char
-	Side
-	`" ++ [20080; 21334; 26041; 21521]%N ++ runes_of_ascii "`,
-
-char
-
-OrderType `" ++ [35746; 21333; 31867; 22411]%N ++ runes_of_ascii "` ,u64
-Price `" ++ [20215; 26684]%N ++ runes_of_ascii "`
-,u32
-Qty  `" ++ [25968; 37327]%N ++ runes_of_ascii "`
+    i64
+repeatCount
+	`{ , }`
 ,
+msg_type ,@lengthOf(body
+    )
 
     repeat
-    string ExtraInfo
-	`" ++ [38468; 21152; 20449; 24687]%N ++ runes_of_ascii "`
-    , repeat
+i8i8	_x
 
-    SubOrder { 
-char[ 16	]
+`{ , }` 
+, 	 /// triple
 
-    ClOrdID `" ++ [23376; 35746; 21333; 21495]%N ++ runes_of_ascii "`
-	,u64	Price
+@lengthOf( Pad )
+repeat
 
-`" ++ [23376; 35746; 21333; 20215; 26684]%N ++ runes_of_ascii "`, u32
-	Qty
+T { 
+match msg_type// trailing space 
 
-`" ++ [23376; 35746; 21333; 25968; 37327]%N ++ runes_of_ascii "`
+  as tag{ /// triple
 
+""`tick`""
+
+    : len }
+,	} ,
+
+    }
+")).
+Eval vm_compute in ("<<<M166>>>" ++ check (runes_of_ascii "packet int
+{
+    // " ++ [128512]%N ++ runes_of_ascii " emoji
+    } options{
+Z9_ = ' ';
+    repeatCount = 0
+    Header = zchar[ 007
+    ] i64_
+/// triple
+// " ++ [128512]%N ++ runes_of_ascii " emoji
+= """ ++ [128512]%N ++ runes_of_ascii """ ;  }root packet leftPad{
+roots, }root packet Foo { repeat//x
+MetaDataX u8x
+    `crlf
+line`
+, @lengthOf(
+    Header ) zchar[ 65535 ] metadata `u8 x,` , @tag( 65535 ) stringy{ options1 @lengthOf( asx ) , } , char[0
+]
+    Packet `two words`
+,@lengthOf( u8x) int @lengthOf(
+Logon ) , } 	 ")).
+Eval vm_compute in ("<<<M3331>>>" ++ check (runes_of_ascii "// top
+packet // c0a
+  // c0b
+leftPad // c1a
+  // c1b
+{
+    // c2
+@calculatedFrom( // c3a
+  // c3b
+""packet"" // c4
+) // c5a
+  // c5b
+chars // c6a
+  // c6b
+Header
+    // c7
 ,
-
-}
-	,
-
-    }  packet
-RiskControlResponse{
-
-    string UniqueOrderId
-
-`" ++ [21807; 19968; 35746; 21333; 21495]%N ++ runes_of_ascii "`	,
-    i32  Status`" ++ [29366; 24577]%N ++ runes_of_ascii "`
-    , string
-	Msg `" ++ [32467; 26524; 20449; 24687]%N ++ runes_of_ascii "`,  repeat
-    Detail
-
+    // c8
+Z9_ // c9a
+  // c9b
+{ // c10a
+  // c10b
+int16 // c11
+roots @lengthOf( // c13
+f32a // c14
+) `line1
+line2` // c16
+, // c17a
+  // c17b
+rootA // c18
+, // c19
+} // c20
+, repeat // c22
+int8 // c23
+int // c24a
+  // c24b
 , }
-
-    packet
-
-    Detail
-
-    {  string 
-RuleName
-
-`" ++ [35268; 21017; 21517; 31216]%N ++ runes_of_ascii "`,u16  Code
-
-`" ++ [21407; 22240; 20195; 30721]%N ++ runes_of_ascii "`
-
+    // c26
+")).
+Eval vm_compute in ("<<<M741>>>" ++ check (runes_of_ascii "options	{ }
+packet tag{ repeat
+string msg_type , i64	float `it's` , @rightPad ('0'	)@lengthOf(
+    MetaDataX  ) body , match Header as leftPad {	42: Header ,} , @calculatedFrom(	""" ++ [233]%N ++ runes_of_ascii "t" ++ [233]%N ++ runes_of_ascii """) string
+matchKey
+, @rightPad (	'\x00')
+char[] matchKey
+    @lengthOf(	crc )
+`tab	here` , uint64
+    charz
+``
+    ,	}
+packet u128
+{ u64 A
+    `tab	here` ,
+    } root packet i8i8
+    { } // `tick` ""quote"" 'q'")).
+Eval vm_compute in ("<<<M701>>>" ++ check (runes_of_ascii "root
+    packet u8x
+{@calculatedFrom( """"	) repeat float
+    pack // " ++ [128512]%N ++ runes_of_ascii " emoji
+,repeat int32
+f32a `doc` ,}root
+packet Z9_ {
+x_y_z { repeat x_y_z  `a\` , repeat
+u32 x	, repeat
+leftPad `tab	here`
+    ,
+    }
 ,
-    }")).
-Eval vm_compute in ("<<<M378>>>" ++ check (runes_of_ascii "options {
-	StringPrefixLenType = u16;
-	ArrayPrefixLenType = u16;
+    }root packet repeatCount { falsey BodyLength ``
+    ,
+    char[ 3 ]
+    calculatedFrom // 50% %s
+@calculatedFrom(""" ++ [28040; 24687]%N ++ runes_of_ascii """	)	``,	repeat //	t
+i8
+As
+    `// not a comment` ,}
+")).
+Eval vm_compute in ("<<<M161>>>" ++ check (runes_of_ascii "MetaData rootA {
+    zchar[ 007	] uint8x
+    `u8 x,` ,char[] lengthOf `a\` , As MetaDataX ,zchar[ 10 ]
+len , // @lengthOf(
+chars	As , }	packet pack {
+    } root packet chars {@tag( //	t
+3 ) i64// 50% %s
+leftPad `tab	here` ,	rootA , @leftPad ( '0') repeat
+// trailing space 
+// trailing space 
+int64 uint8x // trailing space 
+, f32a tag
+    , } // @lengthOf(")).
+Eval vm_compute in ("<<<M1280>>>" ++ check (runes_of_ascii "packet x_y_z { @calculatedFrom( ""{,}""
+)	match pack // `tick` ""quote"" 'q'
+as i8i8 { [
+    //
+    3	] :
+    // " ++ [128512]%N ++ runes_of_ascii " emoji
+    BodyLength  ,
+42
+: i8i8 , [ ""CRC32""
+    // `tick` ""quote"" 'q'
+    ,""a\""b""
+]
+    : Foo } , Pad {crc `crlf
+line`
+    // c
+    ,u8// `tick` ""quote"" 'q'
+x	@calculatedFrom(""abc"" )	`" ++ [28040; 24687; 31867; 22411]%N ++ runes_of_ascii "` , stringy `it's` , } ,
+falsey `
+` , }")).
+Eval vm_compute in ("<<<M769>>>" ++ check (runes_of_ascii "packet
+string_ {  match packetx as
+    // c
+    u128{10
+    : calculatedFrom , 42:
+    i8i8 , 7 :
+rootA [ ""a\\"" // trailing space 
+, 007//	t
+,10
+    ,""1"", """ ++ [28040; 24687]%N ++ runes_of_ascii """,
+// a // b
+// `tick` ""quote"" 'q'
+""// no comment"" , ""a\""b"" ]
+: T 42 :
+crc ,
+    },	len	@lengthOf(
+o )
+//x
+//x
+``, // a // b
+@rightPad( '\x00' )repeat char[] int , }
+")).
+Eval vm_compute in ("<<<M71>>>" ++ check (runes_of_ascii "root
+    packet //
+repeatCount {
+    char[] crc `{ , }`
+    // `tick` ""quote"" 'q'
+    , T { i64_
+// a // b
+/// triple
+asx
+, } ,
+    // " ++ [27880; 37322]%N ++ runes_of_ascii "
+    @leftPad('0' ) char[
+    /// triple
+    00
+    ]
+    a1
+    @lengthOf( Logon
+)
+    // c
+    `it's` ,
+    @tag( 00 )	@calculatedFrom(	""" ++ [233]%N ++ runes_of_ascii "t" ++ [233]%N ++ runes_of_ascii """ )
+int32 x ,} root packet tag {}
+")).
+Eval vm_compute in ("<<<M3767>>>" ++ check (runes_of_ascii "MetaData Foo {
+    string msg_type `" ++ [28040; 24687; 31867; 22411]%N ++ runes_of_ascii "`,
 }
 
-packet SampleBinary {
-	uint16 MsgType `" ++ [28040; 24687; 31867; 22411]%N ++ runes_of_ascii "`,
-	u16 BodyLenght @lengthOf(Body) `" ++ [28040; 24687; 20307; 38271; 24230]%N ++ runes_of_ascii "`,
-	match MsgType as Body {
-		1 : Logon,
-		2 : Logout,
-		3 : Heartbeat,
-		4 : RiskControlRequest,
-		5 : RiskControlResponse,
-	},
-		@calculatedFrom(""CRC32"")
-	u32 Ckecksum `" ++ [26657; 39564; 21644]%N ++ runes_of_ascii "`,
+MetaData u8x {
+}
+
+packet Foo {
+    @lengthOf(tag)
+    u128 msg_type,
+    @calculatedFrom(""// no comment"")
+    crc @calculatedFrom(""{,}"") `doc`,
+    char[007] roots,
+}
+
+options {
+    calculatedFrom = float32
+    pack = '\x00';
+    Packet = ""// no comment""
+}")).
+Eval vm_compute in ("<<<M570>>>" ++ check (runes_of_ascii "MetaData _x {//x
+char[3// packet A { u8 x, }
+]Pad `crlf
+line` , }
+    packet trueish{
+// a // b
+// c
+u ,repeat
+    f32a{ char[ 65535 ]MetaDataX ,}// " ++ [128512]%N ++ runes_of_ascii " emoji
+, @calculatedFrom(
+""// no comment""  ) zchar[ 007 ]crc  @calculatedFrom(
+""a\""b"" )
+    `{ , }`,
+@lengthOf( x_y_z ) As //x
+`
+`, }
+//
+")).
+Eval vm_compute in ("<<<M216>>>" ++ check (runes_of_ascii "packet T { } MetaData MetaDataX {matchKey
+    trueish , }
+    options { tag
+=  false ;	zchar
+= i64; //
+lengthOf =
+    007;T = f32 Pad =
+//x
+// `tick` ""quote"" 'q'
+i32;}packet  uint8x { match
+o
+as
+    u128{
+""a\""b""
+: Pad ,}
+    , } options {
+    Logon // " ++ [128512]%N ++ runes_of_ascii " emoji
+= string ; } 	 ")).
+Eval vm_compute in ("<<<M1637>>>" ++ check (runes_of_ascii "// 50% %s
+packet	a1
+    { zchar[
+// a // b
+// 50% %s
+007]
+T `it's`
+    ,@rightPad
+    // a // b
+    (
+'\x00')
+    o repeatCount , }  packet Logon {  }packet	Logon //x
+{ repeat repeat // " ++ [128512]%N ++ runes_of_ascii " emoji
+uint16 u128
+    //
+    `a\`,
+falsey
+@calculatedFrom(""packet"" ) ,
+    } 	 ")).
+Eval vm_compute in ("<<<M1634>>>" ++ check (runes_of_ascii "// 50% %s
+packet	a1
+    { zchar[
+// a // b
+// 50% %s
+007]
+T `it's`
+    ,@rightPad
+    // a // b
+    (
+'\x00')
+    o repeatCount , }  packet Logon {  }packet	Logon //x
+true repeat // " ++ [128512]%N ++ runes_of_ascii " emoji
+uint16 u128
+    //
+    `a\`,
+falsey
+@calculatedFrom(""packet"" ) ,
+    } 	 ")).
+Eval vm_compute in ("<<<M1524>>>" ++ check (runes_of_ascii "// 50% %s
+packet	i32
+    { zchar[
+// a // b
+// 50% %s
+007]
+T `it's`
+    ,@rightPad
+    // a // b
+    (
+'\x00')
+    o repeatCount , }  packet Logon {  }packet	Logon //x
+{ repeat // " ++ [128512]%N ++ runes_of_ascii " emoji
+uint16 u128
+    //
+    `a\`,
+falsey
+@calculatedFrom(""packet"" ) ,
+    } 	 ")).
+Eval vm_compute in ("<<<M1608>>>" ++ check (runes_of_ascii "// 50% %s
+packet	a1
+    { zchar[
+// a // b
+// 50% %s
+007]
+T `it's`
+    ,@rightPad
+    // a // b
+    (
+'\x00')
+    o repeatCount , }  packet { Logon  }packet	Logon //x
+{ repeat // " ++ [128512]%N ++ runes_of_ascii " emoji
+uint16 u128
+    //
+    `a\`,
+falsey
+@calculatedFrom(""packet"" ) ,
+    } 	 ")).
+Eval vm_compute in ("<<<M1631>>>" ++ check (runes_of_ascii "// 50% %s
+packet	a1
+    { zchar[
+// a // b
+// 50% %s
+007]
+T `it's`
+    ,@rightPad
+    // a // b
+    (
+'\x00')
+    o repeatCount , }  packet Logon {  }packet	Logon //x
+ repeat // " ++ [128512]%N ++ runes_of_ascii " emoji
+uint16 u128
+    //
+    `a\`,
+falsey
+@calculatedFrom(""packet"" ) ,
+    } 	 ")).
+Eval vm_compute in ("<<<M1606>>>" ++ check (runes_of_ascii "// 50% %s
+packet	a1
+    { zchar[
+// a // b
+// 50% %s
+007]
+T `it's`
+    ,@rightPad
+    // a // b
+    (
+'\x00')
+    o repeatCount , }  packet  {  }packet	Logon //x
+{ repeat // " ++ [128512]%N ++ runes_of_ascii " emoji
+uint16 u128
+    //
+    `a\`,
+falsey
+@calculatedFrom(""packet"" ) ,
+    } 	 ")).
+Eval vm_compute in ("<<<M1586>>>" ++ check (runes_of_ascii "// 50% %s
+packet	a1
+    { zchar[
+// a // b
+// 50% %s
+007]
+T `it's`
+    ,@rightPad
+    // a // b
+    (
+'\x00')
+    o  , }  packet Logon {  }packet	Logon //x
+{ repeat // " ++ [128512]%N ++ runes_of_ascii " emoji
+uint16 u128
+    //
+    `a\`,
+falsey
+@calculatedFrom(""packet"" ) ,
+    } 	 ")).
+Eval vm_compute in ("<<<M591>>>" ++ check (runes_of_ascii "packet body {zchar[ 1]  x	`it's`, Header
+    `100% of %d` , } MetaData
+a1 {
+/// triple
+// 50% %s
+i8i8 msg_type ,
+int64 asx , T
+    Packet , uint8
+As ,  } options { // " ++ [27880; 37322]%N ++ runes_of_ascii "
+charz =' ' x_y_z /// triple
+=
+//
+//x
+' ' ;
+packetx = ""// no comment"" }")).
+Eval vm_compute in ("<<<M3362>>>" ++ check (runes_of_ascii "// top
+packet // c0
+Inner // c1
+{ // c2
+u8
+    // c3
+a // c4a
+  // c4b
+, // c5a
+  // c5b
+} root // c7a
+  // c7b
+packet // c8a
+  // c8b
+P {
+    // c10
+Inner // c11a
+  // c11b
+ref_obj , // c13a
+  // c13b
+u8
+    // c14
+x
+    // c15
+, } ")).
+Eval vm_compute in ("<<<M4095>>>" ++ check (runes_of_ascii "
+packet
+x
+
+    {
+string
+    msg_type , 
+match
+	roots  as // @lengthOf(
+  pack
+    { ""\" ++ [233]%N ++ runes_of_ascii """
+	: leftPad , 
+        //	t
+  0
+:	u8x
+
+255 : options1
+
+, ""x y""
+	:  i8i8	// " ++ [27880; 37322]%N ++ runes_of_ascii "
+,""x y"" :
+	len
+	""`tick`"" 
+:	metadata
+, 
+}
+
+    ,} ")).
+Eval vm_compute in ("<<<M1189>>>" ++ check (runes_of_ascii "packet /// triple
+calculatedFrom
+    { @rightPad ( '0' ) char[  1 ] asx , @lengthOf( zchar //
+) int32 float @calculatedFrom( """" ), @rightPad(
+'\x00' ) x lengthOf , @tag(
+    7 ) // packet A { u8 x, }
+msg_type , }
+")).
+Eval vm_compute in ("<<<M1234>>>" ++ check (runes_of_ascii "packet i64_ {match int as	leftPad
+{ [ 65535
+,
+    ""\" ++ [233]%N ++ runes_of_ascii """ , ""1""// 50% %s
+, 7
+    ] :	trueish , } ,
+    asx { char[]
+u
+,leftPad i64_
+, } , @tag( 007 //
+)
+    x //	t
+u128,uint32 options1`// not a comment` ,}
+")).
+Eval vm_compute in ("<<<M3407>>>" ++ check (runes_of_ascii "
+
+  packet A
+
+    {u8 a, }
+packet	B
+
+    {
+    u16  b 
+,
+    }
+root 
+packet P{u8
+
+    K1 , 
+u8 
+K2 , 
+match K1
+as M1 { 1
+: 
+A  ,
+}
+	,match
+K2
+
+    as M2 {
+    1
+	:
+B
+    ,
+	}
+
+    ,	}
+
+")).
+Eval vm_compute in ("<<<M3602>>>" ++ check (runes_of_ascii "// 50% %s
+packet a1 {
+    zchar[007] T `it's`,
+    @rightPad('\x00')
+    o repeatCount,
 }
 
 packet Logon {
-	 @leftPad('0')
-	char[10] UserName `" ++ [29992; 25143; 21517]%N ++ runes_of_ascii "`,
-	string Password `" ++ [23494; 30721]%N ++ runes_of_ascii "`,
-	uint64 ClientId `" ++ [23458; 25143; 31471]%N ++ runes_of_ascii "ID`,
-	u16 HeartbeatInterval `" ++ [24515; 36339; 38388; 38548]%N ++ runes_of_ascii "`,
 }
 
-packet Logout {
-	  @rightPad('0')
-	char[10] UserName `" ++ [29992; 25143; 21517]%N ++ runes_of_ascii "`,
-	uint64 ClientId `" ++ [23458; 25143; 31471]%N ++ runes_of_ascii "ID`,
-}
-
-packet Heartbeat {
-}
-
-packet RiskControlRequest {
-	string UniqueOrderId `" ++ [21807; 19968; 35746; 21333; 21495]%N ++ runes_of_ascii "`,
-	char[16] ClOrdID `" ++ [23458; 25143; 35746; 21333; 21495]%N ++ runes_of_ascii "`,
-	char[3] MarketID `" ++ [24066; 22330]%N ++ runes_of_ascii "id`,
-	char[12] SecurityID `" ++ [35777; 21048; 20195; 30721]%N ++ runes_of_ascii "`,
-	char Side `" ++ [20080; 21334; 26041; 21521]%N ++ runes_of_ascii "`,
-	char OrderType `" ++ [35746; 21333; 31867; 22411]%N ++ runes_of_ascii "`,
-	u64 Price `" ++ [20215; 26684]%N ++ runes_of_ascii "`,
-	u32 Qty `" ++ [25968; 37327]%N ++ runes_of_ascii "`,
-	repeat string ExtraInfo `" ++ [38468; 21152; 20449; 24687]%N ++ runes_of_ascii "`,
-	repeat SubOrder {
-			char[16] ClOrdID `" ++ [23376; 35746; 21333; 21495]%N ++ runes_of_ascii "`,
-			u64 Price `" ++ [23376; 35746; 21333; 20215; 26684]%N ++ runes_of_ascii "`,
-			u32 Qty `" ++ [23376; 35746; 21333; 25968; 37327]%N ++ runes_of_ascii "`,
-		},
-}
-
-packet RiskControlResponse {
-	string UniqueOrderId `" ++ [21807; 19968; 35746; 21333; 21495]%N ++ runes_of_ascii "`,
-	i32 Status `" ++ [29366; 24577]%N ++ runes_of_ascii "`,
-	string Msg `" ++ [32467; 26524; 20449; 24687]%N ++ runes_of_ascii "`,
-	repeat Detail,
-}
-
-packet Detail {
-	string RuleName `" ++ [35268; 21017; 21517; 31216]%N ++ runes_of_ascii "`,
-	u16 Code `" ++ [21407; 22240; 20195; 30721]%N ++ runes_of_ascii "`,
+packet Logon {
+    repeat u128 `a\`,
+    falsey @calculatedFrom(""packet""),
 }")).
-Eval vm_compute in ("<<<M154>>>" ++ check (runes_of_ascii "options { } packet
-    //	t
-    falsey /// triple
-{	i64 calculatedFrom
-    @calculatedFrom(
-    //
-    ""a\\"" )
-`it's` ,
-char[ 00 ] falsey ,	@calculatedFrom(""1"" ) @calculatedFrom( ""{,}""
-    )
-i32	float	,@tag(3 //
-)
-    @calculatedFrom(  ""CRC32"" ) int64 options1 @lengthOf(roots ) `two words` , @calculatedFrom(""a\\""	) repeat trueish { repeat charz
-,trueish // trailing space 
-tag //x
-`two words` ,
-repeat u64 Logon  `" ++ [28040; 24687; 31867; 22411]%N ++ runes_of_ascii "`,},
-    @leftPad(
-    //x
-    '0'
-)// " ++ [128512]%N ++ runes_of_ascii " emoji
-@rightPad (
-// " ++ [128512]%N ++ runes_of_ascii " emoji
-//
-' ' )
-//	t
-//
-u roots,repeat
-A	{i32 int
-@lengthOf( zchar
-)`" ++ [233]%N ++ runes_of_ascii "`
-    ,
-    }//	t
-, u64 A , @tag( 10 ) char[]
-u8x, zchar[
-10 ] pack
-//
-// " ++ [27880; 37322]%N ++ runes_of_ascii "
-@calculatedFrom(""1"" ) `say ""hi""` ,	} packet Z9_//	t
-{// " ++ [27880; 37322]%N ++ runes_of_ascii "
-@leftPad( '0')  repeat
-// a // b
-// @lengthOf(
-As charz
-, body @calculatedFrom( ""it's""
-    )`crlf
-line` ,
-    // " ++ [27880; 37322]%N ++ runes_of_ascii "
-    @leftPad ('0'
-) zchar[ 4294967296 ]
-A @calculatedFrom(""packet""
-    // trailing space 
-    ) `" ++ [233]%N ++ runes_of_ascii "`  , repeat body
-    Header`" ++ [233]%N ++ runes_of_ascii "`,}
+Eval vm_compute in ("<<<M210>>>" ++ check (runes_of_ascii "MetaData Header{
+}	root packet options1 {
+crc metadata`" ++ [233]%N ++ runes_of_ascii "` , }packet A { }root packet
+leftPad	{ } MetaData Header { MetaDataX
+// packet A { u8 x, }
+// 50% %s
+i8i8 `u8 x,`,	}
 ")).
-Eval vm_compute in ("<<<M2037>>>" ++ check (runes_of_ascii "root packet msg_type {
-    repeat A {
-        repeat a1 {
-            repeat len,
-        },
-        pack string_,
-        zchar[7] msg_type @lengthOf(u),
-    },
-    repeat zchar[00] tag,
-    u64 o @calculatedFrom(""a\\""),
-}
-
-packet charz {
-    @tag(0)
-    // c
-    repeat u {
-        char[007] T,
-    },
-    repeatCount @calculatedFrom(""\n""),
-}
-
-packet trueish {
-    @calculatedFrom(""a\\"")
-    @rightPad('0')
-    // `tick` ""quote"" 'q'
-    @lengthOf(BodyLength)
-    string asx @lengthOf(A),
-    //x
-    /// triple
-    @rightPad(' ')
-    match pack as leftPad {
-        [1] : body,
-        [""a	b""] : msg_type,
-        // `tick` ""quote"" 'q'
-        10 : calculatedFrom,
-        7 : packetx,
-        """ ++ [233]%N ++ runes_of_ascii "t" ++ [233]%N ++ runes_of_ascii """ : roots,
-    },
-    @calculatedFrom(""1"")
-    repeat roots u8x,
-}")).
-Eval vm_compute in ("<<<M1821>>>" ++ check (runes_of_ascii "// " ++ [27880; 37322]%N ++ runes_of_ascii "
-root packet _x {
-    //	t
-    // packet A { u8 x, }
-    @rightPad()
-    zchar[007] Logon @calculatedFrom(""x y""),
-    zchar[7] string_ @lengthOf(Packet) `two words`,
-    @tag(007)
-    @calculatedFrom(""x y"")
-    repeat calculatedFrom {
-        // packet A { u8 x, }
-        zchar @calculatedFrom(""" ++ [233]%N ++ runes_of_ascii "t" ++ [233]%N ++ runes_of_ascii """),
-        int32 leftPad,
-    },
-    repeat body chars,
-    @lengthOf(options1)
-    repeat char[255] Foo,
-    // c
-    //
-    repeat MetaDataX {
+Eval vm_compute in ("<<<M964>>>" ++ check (runes_of_ascii "
+MetaData x
+{x MetaDataX
+`tab	here`//
+,
+    f64 trueish`say ""hi""` ,zchar[ 1 // trailing space 
+] f32a
+`` ,
+Packet // c
+body `say ""hi""` , i64 chars
+`crlf
+line` ,}
+")).
+Eval vm_compute in ("<<<M595>>>" ++ check (runes_of_ascii "MetaData body { char[ 10
+    ]
+// packet A { u8 x, }
+// " ++ [128512]%N ++ runes_of_ascii " emoji
+Packet
+    , Foo	lengthOf
+, x_y_z a1	`// not a comment`
+    , }options
+{ repeatCount =
+' ' ; }
+")).
+Eval vm_compute in ("<<<M871>>>" ++ check (runes_of_ascii "  packet	falsey /// triple
+{ f32 uint8x `" ++ [28040; 24687; 31867; 22411]%N ++ runes_of_ascii "`,
+    } // " ++ [27880; 37322]%N ++ runes_of_ascii "
+packet _x
+// " ++ [27880; 37322]%N ++ runes_of_ascii "
+// @lengthOf(
+{	}root packet lengthOf	{
+    // @lengthOf(
+    trueish
+    , }")).
+Eval vm_compute in ("<<<M3694>>>" ++ check (runes_of_ascii "root packet float {
+    repeat i8i8 {
         pack,
     },
-    char[7] repeatCount @calculatedFrom(""it's""),
+    f64 uint8x,
 }
 
-// trailing space 
-packet Packet {
-    Header @lengthOf(uint8x) `two words`,
+packet chars {
 }
 
-options {
-}
-
-root packet msg_type {
-    int32 body `" ++ [28040; 24687; 31867; 22411]%N ++ runes_of_ascii "`,
+root packet float {
+    tag @lengthOf(T) `tab	here`,
 }")).
-Eval vm_compute in ("<<<M255>>>" ++ check (runes_of_ascii "MetaData metadata { // `tick` ""quote"" 'q'
-msg_type
-Pad
-    , int8
-calculatedFrom, } MetaData msg_type{// packet A { u8 x, }
-}
-packet // a // b
-len {_x , }
-options { As =
-// a // b
-// c
-true
-; // " ++ [27880; 37322]%N ++ runes_of_ascii "
-repeatCount
-    ='\x00' ; uint8x // packet A { u8 x, }
-= ""\" ++ [233]%N ++ runes_of_ascii """;
-    chars= true
-; }
-// " ++ [27880; 37322]%N ++ runes_of_ascii "
-// `tick` ""quote"" 'q'
-packet crc {matchKey @lengthOf( float	) ,
-@leftPad ( '0'
-    ) match	i8i8 as x
-{[ // " ++ [128512]%N ++ runes_of_ascii " emoji
-65535 ,
-    // trailing space 
-    10 , 4294967296
-] :repeatCount ,  ""// no comment"": stringy
-    ,} ,
-    @calculatedFrom(	""a	b""
-)crc
-// " ++ [27880; 37322]%N ++ runes_of_ascii "
-// trailing space 
-,
-    /// triple
+Eval vm_compute in ("<<<M894>>>" ++ check (runes_of_ascii "// " ++ [128512]%N ++ runes_of_ascii " emoji
+options { u128=  ' ';
+    Header =
+string
     }
-
-")).
-Eval vm_compute in ("<<<M1815>>>" ++ check (runes_of_ascii "
-options
-{
-    LittleEndian=false
-;
-
-ArrayPrefixLenType
-	=  u8
-
-    ; FixedStringPadChar ='0'; }
-    packet Order
-{ InNote94	{
-
-    f32 
-f1	, f64
-
-Side2
-,repeat InTail47
-	{
-char[] 
-seqNo
-    ,
-char[]
-
-Tail , char[]
-lastPx
-
-,},
-
-    }
-, zchar[ 7
-]
-    f1,
-u8
-    Side2  , } root	packet
-Reject
-
-    {  repeat
-
-    char[
-
-    4] Flags ,
-
-InPrice63
-{  InSeqno41
-	{ repeat  i8
-	OrderId
-,
-
-    repeat	i32  clOrdID	, char[
-
-    9] 
-tag7,
-	char[]
-    lastPx, }  , Order  ,uint8 Side2
-, } ,
-	}
-
-")).
-Eval vm_compute in ("<<<M191>>>" ++ check (runes_of_ascii "packet x
-{ repeat
-    string_
-    { repeat asx	Foo
-    /// triple
-    ,int16 i8i8 , char[] matchKey ,
-// @lengthOf(
-// trailing space 
-match calculatedFrom as // a // b
-roots  { 3
-: x_y_z , }
-    , }
-, @lengthOf(x ) repeat o `say ""hi""`
-    ,//	t
-char[] string_	`" ++ [28040; 24687; 31867; 22411]%N ++ runes_of_ascii "`
-, @lengthOf( f32a )	match
-    Pad as
-    A //	t
-{ ""a	b"": u128 , [""\" ++ [233]%N ++ runes_of_ascii """ ,
-65535
-    , 255
-,""CRC32""
-,
-1 ]
-    : i8i8
-0123456789 : falsey //	t
-, } , }packet zchar { }
-")).
-Eval vm_compute in ("<<<M1826>>>" ++ check (runes_of_ascii "root packet pack {
-    match matchKey as int {
-        00 : metadata,
-        ""a\\"" : o,
-        ""// no comment"" : x,
-        [""packet""] : A,
-        [
-            ""\n"", 0123456789, 00, ""// no comment"", 007,
-            255, 1, 0
-        ] : metadata,
-        [00] : Pad,
-    },
-}// @lengthOf(
-
-MetaData tag {
-    uint64 i64_ `doc`,
-}
-
-packet BodyLength {
-    repeat u32 u128,
-}")).
-Eval vm_compute in ("<<<M357>>>" ++ check (runes_of_ascii "options
-{
-// @lengthOf(
-// " ++ [128512]%N ++ runes_of_ascii " emoji
-x = 10//
-; x_y_z//
+options { zchar
 =
-    true	;
-Logon =
-    i32 T =
-    0 }
-MetaData
-f32a	{ zchar len,
-    }
-    options {string_
-// c
 //
-= zchar[
-007 ] ;
-x_y_z = '0'
-    ;
-}MetaData msg_type // " ++ [27880; 37322]%N ++ runes_of_ascii "
-{ lengthOf msg_type `two words`
-    ,	i64 crc , packetx  zchar
-`// not a comment`
-, string// c
-falsey `tab	here` , }
+// @lengthOf(
+char
+    u128 =
+    int8
+;
+    int =
+    false ;}
 ")).
-Eval vm_compute in ("<<<M1513>>>" ++ check (runes_of_ascii "// top
-packet // c0
-FooBar // c1a
-  // c1b
-{ // c2
-u8 a , // c5a
-  // c5b
-} // c6a
-  // c6b
-packet // c7a
-  // c7b
-foo_bar
-    // c8
-{ // c9a
-  // c9b
-u16
-    // c10
-b // c11a
-  // c11b
-, }
-    // c13
-root // c14
-packet // c15
-R // c16
-{
-    // c17
-FooBar // c18
-, // c19
-foo_bar
-    // c20
-, } ")).
-Eval vm_compute in ("<<<M594>>>" ++ check (runes_of_ascii "root packet tag { }  packet MetaDataX{char[007	]
-// c
-/// triple
-asx  @calculatedFrom( ""a\""b""
-) `say ""hi""`// " ++ [27880; 37322]%N ++ runes_of_ascii "
-,  @tag(4294967296 )
-    char[1//x
-] packetx packetx @calculatedFrom(""a\""b""
-    ) ,
-// " ++ [128512]%N ++ runes_of_ascii " emoji
-// a // b
-@calculatedFrom(""" ++ [233]%N ++ runes_of_ascii "t" ++ [233]%N ++ runes_of_ascii """  ) repeat pack // " ++ [27880; 37322]%N ++ runes_of_ascii "
-,
-    } // c")).
-Eval vm_compute in ("<<<M526>>>" ++ check (runes_of_ascii "root packet tag { }  packet MetaDataX{char[repeat	]
-// c
-/// triple
-asx  @calculatedFrom( ""a\""b""
-) `say ""hi""`// " ++ [27880; 37322]%N ++ runes_of_ascii "
-,  @tag(4294967296 )
-    char[1//x
-] packetx @calculatedFrom(""a\""b""
-    ) ,
-// " ++ [128512]%N ++ runes_of_ascii " emoji
-// a // b
-@calculatedFrom(""" ++ [233]%N ++ runes_of_ascii "t" ++ [233]%N ++ runes_of_ascii """  ) repeat pack // " ++ [27880; 37322]%N ++ runes_of_ascii "
-,
-    } // c")).
-Eval vm_compute in ("<<<M580>>>" ++ check (runes_of_ascii "root packet tag { }  packet MetaDataX{char[007	]
-// c
-/// triple
-asx  @calculatedFrom( ""a\""b""
-) `say ""hi""`// " ++ [27880; 37322]%N ++ runes_of_ascii "
-,  @tag(4294967296 )
-    1 char[//x
-] packetx @calculatedFrom(""a\""b""
-    ) ,
-// " ++ [128512]%N ++ runes_of_ascii " emoji
-// a // b
-@calculatedFrom(""" ++ [233]%N ++ runes_of_ascii "t" ++ [233]%N ++ runes_of_ascii """  ) repeat pack // " ++ [27880; 37322]%N ++ runes_of_ascii "
-,
-    } // c")).
-Eval vm_compute in ("<<<M570>>>" ++ check (runes_of_ascii "root packet tag { }  packet MetaDataX{char[007	]
-// c
-/// triple
-asx  @calculatedFrom( ""a\""b""
-) `say ""hi""`// " ++ [27880; 37322]%N ++ runes_of_ascii "
-,  @tag() 4294967296
-    char[1//x
-] packetx @calculatedFrom(""a\""b""
-    ) ,
-// " ++ [128512]%N ++ runes_of_ascii " emoji
-// a // b
-@calculatedFrom(""" ++ [233]%N ++ runes_of_ascii "t" ++ [233]%N ++ runes_of_ascii """  ) repeat pack // " ++ [27880; 37322]%N ++ runes_of_ascii "
-,
-    } // c")).
-Eval vm_compute in ("<<<M546>>>" ++ check (runes_of_ascii "root packet tag { }  packet MetaDataX{char[007	]
-// c
-/// triple
-asx  @calculatedFrom( int8
-) `say ""hi""`// " ++ [27880; 37322]%N ++ runes_of_ascii "
-,  @tag(4294967296 )
-    char[1//x
-] packetx @calculatedFrom(""a\""b""
-    ) ,
-// " ++ [128512]%N ++ runes_of_ascii " emoji
-// a // b
-@calculatedFrom(""" ++ [233]%N ++ runes_of_ascii "t" ++ [233]%N ++ runes_of_ascii """  ) repeat pack // " ++ [27880; 37322]%N ++ runes_of_ascii "
-,
-    } // c")).
-Eval vm_compute in ("<<<M633>>>" ++ check (runes_of_ascii "root packet tag { }  packet MetaDataX{char[007	]
-// c
-/// triple
-asx  @calculatedFrom( ""a\""b""
-) `say ""hi""`// " ++ [27880; 37322]%N ++ runes_of_ascii "
-,  @tag(4294967296 )
-    char[1//x
-] packetx @calculatedFrom(""a\""b""
-    ) ,
-// " ++ [128512]%N ++ runes_of_ascii " emoji
-// a // b
-@calculatedFrom(""" ++ [233]%N ++ runes_of_ascii "t" ++ [233]%N ++ runes_of_ascii """  )  pack // " ++ [27880; 37322]%N ++ runes_of_ascii "
-,
-    } // c")).
-Eval vm_compute in ("<<<M1758>>>" ++ check (runes_of_ascii "root packet calculatedFrom {
-    repeat Header,
-}
+Eval vm_compute in ("<<<M2097>>>" ++ check (runes_of_ascii "MetaData BodyLength
+{ int8 Foo
+, string
+    MetaDataX , float , zchar pack options1
+,asx string_, }
+packet u8x {Foo@lengthOf(charz )
+`" ++ [28040; 24687; 31867; 22411]%N ++ runes_of_ascii "`,  }
+")).
+Eval vm_compute in ("<<<M2087>>>" ++ check (runes_of_ascii "MetaData BodyLength
+{ int8 Foo
+, string
+    MetaDataX float , zchar ,pack options1
+,asx string_, }
+packet u8x {Foo@lengthOf(charz )
+`" ++ [28040; 24687; 31867; 22411]%N ++ runes_of_ascii "`,  }
+")).
+Eval vm_compute in ("<<<M2085>>>" ++ check (runes_of_ascii "MetaData BodyLength
+{ int8 Foo
+, string
+    MetaDataX  float zchar ,pack options1
+,asx string_, }
+packet u8x {Foo@lengthOf(charz )
+`" ++ [28040; 24687; 31867; 22411]%N ++ runes_of_ascii "`,  }
+")).
+Eval vm_compute in ("<<<M4248>>>" ++ check (runes_of_ascii "  MetaData
 
-MetaData Header {
-    zchar[10] As,// trailing space 
-    string chars,
-    crc Logon `u8 x,`,
-    Z9_ Logon,
-}
-
-packet trueish {
-}
-
-MetaData A {
-}
+    A  {  } packet
+zchar 
+    // packet A { u8 x, }
+    // `tick` ""quote"" 'q'
+		{ 
+/// triple
+    	}
 
 options {
-    options1 = ' ';//	t
-}")).
-Eval vm_compute in ("<<<M115>>>" ++ check (runes_of_ascii "
-MetaData stringy
-{
-    i16
-    f32a , string  crc `crlf
-line`
-, f32 o `doc` , float64
-calculatedFrom , }	packet o
-{ @leftPad // `tick` ""quote"" 'q'
-( )string_
-    @lengthOf(packetx // `tick` ""quote"" 'q'
-), }
+}/// triple
 ")).
-Eval vm_compute in ("<<<M354>>>" ++ check (runes_of_ascii "MetaData u128 { char[]falsey ,u8  roots	, i8
-u `doc`, packetx int ,
-}// c
-packet asx
-{ }
-options	{ matchKey= ""// no comment"" Logon
-= char[]
-    u128=
-false options1 =' '
-len
-    = '\x00'  }")).
-Eval vm_compute in ("<<<M1529>>>" ++ check (runes_of_ascii "
-
-  packet
-	u128 
-{ u8 a,
-
-    }
-
-root packet	Msg
-{
-	u8
-k,
-
-u24 {
-u8
-Hi
-,u16	Lo	,	}  , 
-repeat	i24
+Eval vm_compute in ("<<<M2105>>>" ++ check (runes_of_ascii "MetaData BodyLength
+{ int8 Foo
+, string
+    MetaDataX , float zchar , options1
+,asx string_, }
+packet u8x {Foo@lengthOf(charz )
+`" ++ [28040; 24687; 31867; 22411]%N ++ runes_of_ascii "`,  }
+")).
+Eval vm_compute in ("<<<M2291>>>" ++ check (runes_of_ascii "options
     {
-	u32
-	q ,
-}
-
-,
-u128
-
+x_y_z// " ++ [27880; 37322]%N ++ runes_of_ascii "
+= 10 ; }
+packet body {
+    @calculatedFrom(
+// trailing space 
+// " ++ [27880; 37322]%N ++ runes_of_ascii "
+""1""
+)	match T as string
+    {
+255 :T , }
+,}")).
+Eval vm_compute in ("<<<M2314>>>" ++ check (runes_of_ascii "options
+    {
+x_y_z// " ++ [27880; 37322]%N ++ runes_of_ascii "
+= 10 ; }
+packet body {
+    @calculatedFrom(
+// trailing space 
+// " ++ [27880; 37322]%N ++ runes_of_ascii "
+""1""
+)	match T as Foo
+    {
+255 :T , , }
+,}")).
+Eval vm_compute in ("<<<M4428>>>" ++ check (runes_of_ascii "packet A {
+    match k as n {
+        [
+            1, 22, 007, 4, 5,
+            66, 7, 8, 9, 10
+        ] : B,
+        2 : C,
+    },
+}")).
+Eval vm_compute in ("<<<M2220>>>" ++ check (runes_of_ascii "options
+    {
+=// " ++ [27880; 37322]%N ++ runes_of_ascii "
+x_y_z 10 ; }
+packet body {
+    @calculatedFrom(
+// trailing space 
+// " ++ [27880; 37322]%N ++ runes_of_ascii "
+""1""
+)	match T as Foo
+    {
+255 :T , }
+,}")).
+Eval vm_compute in ("<<<M1944>>>" ++ check (runes_of_ascii "
+packet leftPad {
+float64( '0')
+u32
+i64_ `100% of %d` ,repeat// 50% %s
+i8 chars
     ,
-u16	float32x
+} MetaData
+    f32a
+{ // packet A { u8 x, }
+}")).
+Eval vm_compute in ("<<<M4360>>>" ++ check (runes_of_ascii "packet A
 
-    ,  string
-
-s
-
+    { 
+match  k  as  n
+    { ""\
+"": B ,
+	[""\
+""	, 
+1 ]  :C  , 
+[
+	1 , 2	,	3 
 ,
-    } ")).
-Eval vm_compute in ("<<<M476>>>" ++ check (runes_of_ascii "packet
-    // `tick` ""quote"" 'q'
-    crc
-// packet A { u8 x, }
-//	t
-{
-u32 a1 ,
-    // trailing space 
-    roots
-charz //
-`two words`,	}
-    MetaData caf" ++ [233]%N ++ runes_of_ascii "_1 {
-} /// triple")).
-Eval vm_compute in ("<<<M692>>>" ++ check (runes_of_ascii "root packet len // trailing space 
-{
-// " ++ [27880; 37322]%N ++ runes_of_ascii "
-//	t
-10 char[
-] metadata	@lengthOf( o ) `crlf
-line`,
-    @rightPad
-( ' '
-) string
-    Header @calculatedFrom( ""a\\""
-    ), }
-")).
-Eval vm_compute in ("<<<M718>>>" ++ check (runes_of_ascii "root packet { // trailing space 
-len
-// " ++ [27880; 37322]%N ++ runes_of_ascii "
-//	t
-char[10
-] metadata	@lengthOf( o ) `crlf
-line`,
-    @rightPad
-( ' '
-) string
-    Header @calculatedFrom( ""a\\""
-    ), }
-")).
-Eval vm_compute in ("<<<M716>>>" ++ check (runes_of_ascii "root packet len // trailing space 
-{
-// " ++ [27880; 37322]%N ++ runes_of_ascii "
-//	t
-char[10
-] metadata	@lengthOf( o ) `crlf
-line`,
-    @rightPad
-( ' '
-) string
-    Header @calculatedFrom( ""a\\""
-    ),")).
-Eval vm_compute in ("<<<M34>>>" ++ check (runes_of_ascii "// " ++ [27880; 37322]%N ++ runes_of_ascii "
-root packet chars { @rightPad(
-    //	t
-    )
-    u8x @calculatedFrom( ""a	b"" ) `line1
-line2` ,
-repeat
-tag {
-    repeat options1 f32a
-    `" ++ [28040; 24687; 31867; 22411]%N ++ runes_of_ascii "` , },	}
-")).
-Eval vm_compute in ("<<<M1791>>>" ++ check (runes_of_ascii "
-root
+4
+,
 
-    packet
-matchKey
-{ zchar[  3
-	] pack 
-@calculatedFrom(
-	""a	b""
-)`doc` ,
-    // c
-    } options
-	{ }MetaData  A {  int8	msg_type	,
-	}")).
-Eval vm_compute in ("<<<M324>>>" ++ check (runes_of_ascii "MetaData metadata {
-//x
-// " ++ [128512]%N ++ runes_of_ascii " emoji
+5  ,
+	""\
+"" 
+]
+    : D
+    ,
+} 
+,
+    }")).
+Eval vm_compute in ("<<<M3869>>>" ++ check (runes_of_ascii "packet charz {
+    char float,//x
 }
-    root packet chars {
-    @lengthOf(Packet
+
+packet float {
     // @lengthOf(
-    ) // c
-repeat int16 roots `
-` ,	}")).
-Eval vm_compute in ("<<<M1721>>>" ++ check (runes_of_ascii "MetaData
-float { 
-float64
-
-    charz
-
-    `
-`
-	,	} 
-root
-packet chars
-{ @rightPad
-	(  '0'  
-      // c
-		)  Foo
-    ,  }
-
-")).
-Eval vm_compute in ("<<<M1221>>>" ++ check (runes_of_ascii "// c
-root packet matchKey { zchar[ 3 ] pack @calculatedFrom( ""a	b"" ) `doc` , } options { } MetaData A { int8 msg_type , }")).
-Eval vm_compute in ("<<<M1254>>>" ++ check (runes_of_ascii "root packet matchKey { zchar[ 3 ] pack @calculatedFrom( ""a	b"" ) `doc` , } options {
-// c
-} MetaData A { int8 msg_type , }")).
-Eval vm_compute in ("<<<M2043>>>" ++ check (runes_of_ascii "packet  A
-{
-	match k
-
-as
-
-n	{
-    [ ""a""
-    , ""bb""	, 
-""c c""  , 
-""d"" ,
-
-""e"" , ""f""
-
-,
-""g""
-, ""h""	] :
-B	2 : C
-
-    },}
-
-")).
-Eval vm_compute in ("<<<M889>>>" ++ check (runes_of_ascii "packet A {
-  match k as n {
-    [""a"", ""bb"", ""c c"", ""d"", ""e"", ""f"", ""g"", ""h"", ""i"", ""j"", ""k""] : B
-    2 : C
-  },
+    zchar[0123456789] trueish @lengthOf(i8i8),
+    i64 Pad,
 }")).
-Eval vm_compute in ("<<<M35>>>" ++ check (runes_of_ascii "options { body = 42 ;Logon
-// @lengthOf(
-// " ++ [27880; 37322]%N ++ runes_of_ascii "
-=
-    '0'
-    ; metadata=
-""" ++ [128512]%N ++ runes_of_ascii """; Foo =true//
-i64_
-='\x00'  }
-")).
-Eval vm_compute in ("<<<M1925>>>" ++ check (runes_of_ascii "
-MetaData
-    float { // c
-      float64
-	charz`
-`
-,
-
-}root
-packet	chars
-{ @rightPad(
-
-'0')
-	Foo	, 
-} ")).
-Eval vm_compute in ("<<<M1675>>>" ++ check (runes_of_ascii "MetaData float {
-    float64 charz `
-        `,
-}
-
-root packet chars {
-    @rightPad('0')
-    Foo,
-}")).
-Eval vm_compute in ("<<<M900>>>" ++ check (runes_of_ascii "packet A {
-  match k as n {
-    [1, 22, 007, 4, 5, 66, 7, 8, 9, 10, 11, 12] : B
-    2 : C
-  },
-}")).
-Eval vm_compute in ("<<<M836>>>" ++ check (runes_of_ascii "packet A {
-  match k as n {
-    [""a"", ""bb"", ""c c"", ""d"", ""e"", ""f"", ""g""] : B,
-    2 : C
-  },
-}")).
-Eval vm_compute in ("<<<M1181>>>" ++ check (runes_of_ascii "MetaData
-// c
-float { float64 charz `
-` , } root packet chars { @rightPad ( '0' ) Foo , }")).
-Eval vm_compute in ("<<<M1213>>>" ++ check (runes_of_ascii "MetaData float { float64 charz `
-` , } root packet chars { @rightPad ( '0' ) Foo
-// c
-, }")).
-Eval vm_compute in ("<<<M1424>>>" ++ check (runes_of_ascii "packet chars { } packet MetaDataX { @tag( 42 ) i16 string_ , repeat x // c
-`say ""hi""` , }")).
-Eval vm_compute in ("<<<M841>>>" ++ check (runes_of_ascii "packet A {
-  match k as n {
-    [""a"", 22, ""c c"", 4, ""e"", 66, ""g""] : B
-    2 : C
-  },
-}")).
-Eval vm_compute in ("<<<M1154>>>" ++ check (runes_of_ascii "packet metadata { Logon { A `" ++ [28040; 24687; 31867; 22411]%N ++ runes_of_ascii "` , tag o , } , zchar len `// not a comment` // c
-, }")).
-Eval vm_compute in ("<<<M1359>>>" ++ check (runes_of_ascii "packet o { repeat Logon uint8x , } options {
-// c
-asx = zchar[ 3 ] stringy = '\x00' }")).
-Eval vm_compute in ("<<<M2007>>>" ++ check (runes_of_ascii "packet A {
-    B b `
-        x`,
-    B `
-        x`,
-    repeat B bs `
-        x`,
-}")).
-Eval vm_compute in ("<<<M1320>>>" ++ check (runes_of_ascii "MetaData body { i64 pack `it's` , }
-// c
-packet stringy { int16 calculatedFrom , }")).
-Eval vm_compute in ("<<<M1089>>>" ++ check (runes_of_ascii "packet A { u16 // a
- len // b
- @lengthOf( // c
- body // d
- ) // e
- `d` // f
- , }")).
-Eval vm_compute in ("<<<M83>>>" ++ check (runes_of_ascii "MetaData
-Packet
-{
-    }options { Z9_ =
-char[] ; _x=
-'0';
+Eval vm_compute in ("<<<M636>>>" ++ check (runes_of_ascii "
+MetaData crc { // a // b
+string repeatCount ,As
+    repeatCount `{ , }` ,uint32 Packet `` , uint16 chars `say ""hi""`,//
+} // " ++ [27880; 37322]%N)).
+Eval vm_compute in ("<<<M4396>>>" ++ check (runes_of_ascii "options  { options1  =
+char[] 
+	    // c
+lengthOf
+=string
+    Foo	=
+	255 
 body
-=
-false }
+
+    =
+	7
+
+    //x
+	;
+
+    chars  = true}")).
+Eval vm_compute in ("<<<M213>>>" ++ check (runes_of_ascii "options {// " ++ [27880; 37322]%N ++ runes_of_ascii "
+len =
+    // a // b
+    ""a\\""
+    stringy = char[] ; // @lengthOf(
+A = 0 ;	len =int64 packetx = ""`tick`"" }")).
+Eval vm_compute in ("<<<M1865>>>" ++ check (runes_of_ascii "packet o {
+    roots `it's`
+// trailing space 
+//x
+, char[ '\x00'
+    ]  A, // " ++ [27880; 37322]%N ++ runes_of_ascii "
+f64
+repeatCount
+    `crlf
+line`
+,}")).
+Eval vm_compute in ("<<<M1878>>>" ++ check (runes_of_ascii "packet o {
+    roots `it's`
+// trailing space 
+//x
+, char[ 42
+    ]  A, , // " ++ [27880; 37322]%N ++ runes_of_ascii "
+f64
+repeatCount
+    `crlf
+line`
+,}")).
+Eval vm_compute in ("<<<M123>>>" ++ check (runes_of_ascii "packet zchar { @tag( 65535 ) @tag(
+10 ) charz , char[] MetaDataX
+@calculatedFrom( ""x y"" )	`line1
+line2` ,
+    } 	 ")).
+Eval vm_compute in ("<<<M1852>>>" ++ check (runes_of_ascii "packet o {
+    roots `it's`
+// trailing space 
+//x
+ char[ 42
+    ]  A, // " ++ [27880; 37322]%N ++ runes_of_ascii "
+f64
+repeatCount
+    `crlf
+line`
+,}")).
+Eval vm_compute in ("<<<M1585>>>" ++ check (runes_of_ascii "// 50% %s
+packet	a1
+    { zchar[
+// a // b
+// 50% %s
+007]
+T `it's`
+    ,@rightPad
+    // a // b
+    (
+'\x00')")).
+Eval vm_compute in ("<<<M3872>>>" ++ check (runes_of_ascii "packet u8x {
+    match u as zchar {
+        42 : body,
+    },
+    int8 BodyLength `" ++ [28040; 24687; 31867; 22411]%N ++ runes_of_ascii "`,
+}// trailing space ")).
+Eval vm_compute in ("<<<M750>>>" ++ check (runes_of_ascii "
+packet  tag
+{ @tag(
+10) string T , @calculatedFrom( ""it's"" ) u8 body, repeat
+rootA ,Z9_ , }packet As {}
 ")).
-Eval vm_compute in ("<<<M788>>>" ++ check (runes_of_ascii "packet A {
+Eval vm_compute in ("<<<M80>>>" ++ check (runes_of_ascii "options {	Z9_ // packet A { u8 x, }
+=	'0'charz
+= 10 T =
+// `tick` ""quote"" 'q'
+//
+""// no comment"" ; }
+")).
+Eval vm_compute in ("<<<M949>>>" ++ check (runes_of_ascii "// " ++ [128512]%N ++ runes_of_ascii " emoji
+options// c
+{repeatCount= '\x00'	}
+// 50% %s
+// packet A { u8 x, }
+MetaData uint8x {	}
+
+")).
+Eval vm_compute in ("<<<M4283>>>" ++ check (runes_of_ascii "
+// 50% %s
+  packet leftPad
+{ 
+}  packet  Packet 
+{ 
+@lengthOf(
+	chars
+)
+repeat u128
+	u8x `" ++ [233]%N ++ runes_of_ascii "`, } ")).
+Eval vm_compute in ("<<<M3>>>" ++ check (runes_of_ascii "options
+    { u
+    = ' ' } packet crc
+    { @rightPad // @lengthOf(
+() u	u`tab	here` , } //x")).
+Eval vm_compute in ("<<<M3745>>>" ++ check (runes_of_ascii "
+packet
+
+A 
+{match
+    k as n { [ ""a""
+, ""bb""
+    ,""c c""
+, ""d""
+]
+
+: B  ,
+	2
+
+    : C}
+,	}")).
+Eval vm_compute in ("<<<M203>>>" ++ check (runes_of_ascii "MetaData packetx{
+char[] x
+// `tick` ""quote"" 'q'
+//
+, body Z9_ //	t
+, }
+// trailing space 
+")).
+Eval vm_compute in ("<<<M1439>>>" ++ check (runes_of_ascii "packet
+T
+{ match repeatCount calculatedFrom	as
+{ [65535 ]	: As	,
+} ,}
+// trailing space 
+")).
+Eval vm_compute in ("<<<M1452>>>" ++ check (runes_of_ascii "packet
+T
+{ match repeatCount as	calculatedFrom
+{ 65535 ]	: As	,
+} ,}
+// trailing space 
+")).
+Eval vm_compute in ("<<<M4104>>>" ++ check (runes_of_ascii "// top
+packet u8x {
+}
+
+MetaData crc {
+    // c6
+    char[4294967296] Foo,// c11
+}
+// c12")).
+Eval vm_compute in ("<<<M1786>>>" ++ check (runes_of_ascii "options{  lengthOf =//x
+i16;
+    BodyLength = 0 ; pack
+= false;
+    A = = char[ 3 ] }")).
+Eval vm_compute in ("<<<M3082>>>" ++ check (runes_of_ascii "packet A {
+    u32 crc @calculatedFrom(""x\
+y""),
+    @calculatedFrom(""x\
+y"") u8 y,
+}")).
+Eval vm_compute in ("<<<M2956>>>" ++ check (runes_of_ascii "packet A {
   match k as n {
-    [""a"", 22, ""c c""] : B,
+    [1, 22, ""c c"", 4, 5, ""f"", 7, 8] : B
     2 : C
   },
 }")).
-Eval vm_compute in ("<<<M937>>>" ++ check (runes_of_ascii "packet A {
-    B b `a
-
-b`,
-    B `a
-
-b`,
-    repeat B bs `a
-
-b`,
-}")).
-Eval vm_compute in ("<<<M820>>>" ++ check (runes_of_ascii "packet A { Inner { match k as n { [1,22,007,4,5] : B, }, }, }")).
-Eval vm_compute in ("<<<M1280>>>" ++ check (runes_of_ascii "packet x { // c
-@rightPad ( ) repeat roots Logon `doc` , }")).
-Eval vm_compute in ("<<<M1065>>>" ++ check (runes_of_ascii "packet A { match k as n { 1 : B // a // b 2 : C }, }")).
-Eval vm_compute in ("<<<M1437>>>" ++ check (runes_of_ascii "
-
-  root
-packet P 
-{
-char
-	c  ,
-	u8
-
-x
-, 
+Eval vm_compute in ("<<<M1435>>>" ++ check (runes_of_ascii "packet
+T
+{ match 255 as	calculatedFrom
+{ [65535 ]	: As	,
+} ,}
+// trailing space 
+")).
+Eval vm_compute in ("<<<M2729>>>" ++ check (runes_of_ascii "true x_y_z = char[] @calculatedFrom( { char , @calculatedFrom( char true options")).
+Eval vm_compute in ("<<<M3249>>>" ++ check (runes_of_ascii "MetaData Foo { // c
+zchar[ 0 ] matchKey , } options { lengthOf = i32 u = 00 ; }")).
+Eval vm_compute in ("<<<M3364>>>" ++ check (runes_of_ascii "packet Inner {
+    u8 a,
+}
+root packet P {
+    repeat Inner items,
+    u8 x,
 }
 ")).
-Eval vm_compute in ("<<<M763>>>" ++ check (runes_of_ascii "char[ string string string : uint8 `a\` i64")).
-Eval vm_compute in ("<<<M1108>>>" ++ check (runes_of_ascii "root packet u128 { chars // c
-`it's` , }")).
-Eval vm_compute in ("<<<M959>>>" ++ check (runes_of_ascii "root packet A {
-    u8 x `tab
-	x`,
+Eval vm_compute in ("<<<M2912>>>" ++ check (runes_of_ascii "packet A {
+  match k as n {
+    [1, ""bb"", 007, ""d"", 5] : B,
+    2 : C
+  },
 }")).
-Eval vm_compute in ("<<<M1708>>>" ++ check (runes_of_ascii "packet A {
-    repeat B b `d`,
-}")).
-Eval vm_compute in ("<<<M80>>>" ++ check (runes_of_ascii "packet u8x {
-    //	t
-    }
+Eval vm_compute in ("<<<M2114>>>" ++ check (runes_of_ascii "MetaData BodyLength
+{ int8 Foo
+, string
+    MetaDataX , float zchar ,pack")).
+Eval vm_compute in ("<<<M1886>>>" ++ check (runes_of_ascii "packet o {
+    roots `it's`
+// trailing space 
+//x
+, char[ 42
+    ]  A,")).
+Eval vm_compute in ("<<<M3337>>>" ++ check (runes_of_ascii "// top
+options // c0
+{ u8x = false // c4a
+  // c4b
+} // c5a
+  // c5b
+")).
+Eval vm_compute in ("<<<M606>>>" ++ check (runes_of_ascii "// " ++ [128512]%N ++ runes_of_ascii " emoji
+packet i64_ {
+string a1
+@lengthOf(
+MetaDataX ) `" ++ [233]%N ++ runes_of_ascii "` ,}
+")).
+Eval vm_compute in ("<<<M1032>>>" ++ check (runes_of_ascii "options { // c
+Z9_= ' ' ;roots=true  ; x
+= true ; }
+options { }")).
+Eval vm_compute in ("<<<M3580>>>" ++ check (runes_of_ascii "  packet A{  match
+	k as n	{
+[ 1
+	,  22
+]:
+
+B  2  :C  }	,
+}
 
 ")).
-Eval vm_compute in ("<<<M753>>>" ++ check (runes_of_ascii "c%Wbj/?4;1uTXgLctYOdA$q,@")).
-Eval vm_compute in ("<<<M1389>>>" ++ check (runes_of_ascii "MetaData o { } // c
-")).
-Eval vm_compute in ("<<<M996>>>" ++ check (runes_of_ascii "packet A {
+Eval vm_compute in ("<<<M3305>>>" ++ check (runes_of_ascii "packet u8x { } MetaData crc { char[ // c
+4294967296 ] Foo , }")).
+Eval vm_compute in ("<<<M1155>>>" ++ check (runes_of_ascii "packet u8x{ @tag( 10
+    // a // b
+    ) u128
+`` , //	t
 }
-// c" ++ [8192]%N)).
-Eval vm_compute in ("<<<M979>>>" ++ check (runes_of_ascii "packet A {
-}// c" ++ [160]%N)).
-Eval vm_compute in ("<<<M248>>>" ++ check (runes_of_ascii "
-options
-{}")).
-Eval vm_compute in ("<<<M985>>>" ++ check (runes_of_ascii "// c" ++ [133]%N)).
-Eval vm_compute in ("<<<M730>>>" ++ check ([0]%N)).
+")).
+Eval vm_compute in ("<<<M1550>>>" ++ check (runes_of_ascii "// 50% %s
+packet	a1
+    { zchar[
+// a // b
+// 50% %s
+007]")).
+Eval vm_compute in ("<<<M222>>>" ++ check (runes_of_ascii "options {
+    // a // b
+    a1// c
+=
+255
+;
+i8i8 =""" ++ [128512]%N ++ runes_of_ascii """}
+")).
+Eval vm_compute in ("<<<M560>>>" ++ check (runes_of_ascii "
+packet
+MetaDataX { repeat f32 MetaDataX
+    , }
+")).
+Eval vm_compute in ("<<<M4336>>>" ++ check (runes_of_ascii "
+
+  root packet// `tick` ""quote"" 'q'
+	i8i8 {
+}
+
+")).
+Eval vm_compute in ("<<<M4260>>>" ++ check (runes_of_ascii "options {
+    a = ""\
+    "";
+    b = ""\
+    ""
+}")).
+Eval vm_compute in ("<<<M3748>>>" ++ check (runes_of_ascii "
+root	packet
+	f32a
+{ 
+    // a // b
+
+  }
+
+")).
+Eval vm_compute in ("<<<M4105>>>" ++ check (runes_of_ascii "root packet u128 {
+    chars `doc`,
+}
+// c")).
+Eval vm_compute in ("<<<M3235>>>" ++ check (runes_of_ascii "root packet u128 { chars `doc` , } // c
+")).
+Eval vm_compute in ("<<<M3558>>>" ++ check (runes_of_ascii "
+root
+	packet
+P	{ char	c, u8	x 
+,
+
+}
+")).
+Eval vm_compute in ("<<<M2391>>>" ++ check (runes_of_ascii "Me@xtaData
+Foo {Header //
+pack ,	} 	 ")).
+Eval vm_compute in ("<<<M2774>>>" ++ check (runes_of_ascii "yrG@B=*vT0kv)z6-oDaFq1bD]A<RAF""axK(o")).
+Eval vm_compute in ("<<<M3077>>>" ++ check (runes_of_ascii "root packet A {
+    u8 x `%%d%!`,
+}")).
+Eval vm_compute in ("<<<M2401>>>" ++ check (runes_of_ascii "MetaData
+Foo {Header //
+x" ++ [178]%N ++ runes_of_ascii " ,	} 	 ")).
+Eval vm_compute in ("<<<M3179>>>" ++ check (runes_of_ascii "packet A {
+ u8 x `d x`, // c x
+}")).
+Eval vm_compute in ("<<<M1182>>>" ++ check (runes_of_ascii "MetaData Z9_	{ BodyLength _x,}")).
+Eval vm_compute in ("<<<M2365>>>" ++ check (runes_of_ascii "MetaData
+Foo { //
+pack ,	} 	 ")).
+Eval vm_compute in ("<<<M3343>>>" ++ check (runes_of_ascii "options {
+// c
+u8x = false }")).
+Eval vm_compute in ("<<<M4153>>>" ++ check (runes_of_ascii "
+MetaData	metadata
+    {	} ")).
+Eval vm_compute in ("<<<M2768>>>" ++ check (runes_of_ascii "{ char[] f64 msg_type ; ]")).
+Eval vm_compute in ("<<<M1309>>>" ++ check (runes_of_ascii "root packet packetx {}
+")).
+Eval vm_compute in ("<<<M350>>>" ++ check (runes_of_ascii "options { Z9_
+=0 ; }
+")).
+Eval vm_compute in ("<<<M2674>>>" ++ check (runes_of_ascii "options { a = `d`; }")).
+Eval vm_compute in ("<<<M3178>>>" ++ check (runes_of_ascii "// c x
+packet A {
+}")).
+Eval vm_compute in ("<<<M3128>>>" ++ check (runes_of_ascii "// c" ++ [8232]%N ++ runes_of_ascii "
+packet A {
+}")).
+Eval vm_compute in ("<<<M2579>>>" ++ check (runes_of_ascii "packet A { x y, }")).
+Eval vm_compute in ("<<<M760>>>" ++ check (runes_of_ascii "
+MetaData u { }
+")).
+Eval vm_compute in ("<<<M60>>>" ++ check (runes_of_ascii " // @lengthOf(")).
+Eval vm_compute in ("<<<M1087>>>" ++ check (runes_of_ascii "packet T { }")).
+Eval vm_compute in ("<<<M2721>>>" ++ check (runes_of_ascii "as f64 u32")).
+Eval vm_compute in ("<<<M1719>>>" ++ check (runes_of_ascii "options")).
+Eval vm_compute in ("<<<M2520>>>" ++ check (runes_of_ascii """a\
+b""")).
+Eval vm_compute in ("<<<M2785>>>" ++ check (runes_of_ascii "t2Yz" ++ [65533]%N)).
+Eval vm_compute in ("<<<M2508>>>" ++ check (runes_of_ascii "// x")).
+Eval vm_compute in ("<<<M2516>>>" ++ check (runes_of_ascii """a\")).
+Eval vm_compute in ("<<<M2515>>>" ++ check (runes_of_ascii """a")).
+Eval vm_compute in ("<<<M2851>>>" ++ check ([1143]%N)).
